@@ -84,13 +84,25 @@ theorem DShape.grow {d : Bytes} {c : Nat} {s s' : PState} {x : Nat} (h : DShape 
   refine ⟨by rw [g.oldP x hx]; exact h.att, by rw [hfi]; exact h.fi, ?_, by rw [hfi, pay_opcode k1.2]; exact h.nameOp⟩
   exact h.shape.transfer hpx hfi hla' k1.2 (g.fiK _ l1 hTc) k1.1 k2.2
 
-/-- the directives along a step: the touched parents are the exception or neither a `Scope` nor a name-path object,
+/-- what a step may touch: the object under construction (the exception), or an object that is neither a `Scope` nor
+a `Method` and hangs under a scope block (or nowhere) or is a scope block itself — so not the name object of a
+directive and not the name or the flags of a method -/
+def TOK (s : PState) (ex : Option Nat) (y : Nat) : Prop :=
+  some y = ex ∨ (((slot s.tree y).opcode ≠ opScope ∧ (slot s.tree y).opcode ≠ opMethod) ∧
+    (ParSB s y ∨ (slot s.tree y).opcode = opIntScopeBlock) ∧ (slot s.tree y).opcode ≠ opIntNamePathOrMethodCall)
+
+/-- the exception is a `Scope` or a `Method` -/
+def ExK (s : PState) (ex : Option Nat) : Prop :=
+  ∀ e, ex = some e → (slot s.tree e).opcode = opScope ∨ (slot s.tree e).opcode = opMethod
+
+theorem ExK.none (s : PState) : ExK s none := fun _ hq => by cases hq
+
+/-- the directives along a step: the touched objects are the exception or far from every directive,
 and what the step created has no arguments if it is a `Scope` -/
 theorem DirOK.grow {d : Bytes} {ex : Option Nat} {c : Nat} {s s' : PState} (h : DirOK d ex s) (g : SGrow T c s s')
     (w : WF s.tree) (w' : WF s'.tree)
-    (hT : ∀ y, T y → live s.tree y = true →
-      some y = ex ∨ ((slot s.tree y).opcode ≠ opScope ∧ ((slot s.tree y).opcode ≠ opIntNamePath ∨ ParSB s y)))
-    (hex : ∀ e, ex = some e → (slot s.tree e).opcode = opScope)
+    (hT : ∀ y, T y → live s.tree y = true → TOK s ex y)
+    (hex : ExK s ex)
     (hfresh : ∀ x, live s.tree x = false → live s'.tree x = true → (slot s'.tree x).opcode = opScope → Fi s'.tree x = INV) :
     DirOK d ex s' := by
   intro x hl ho hh hne
@@ -104,7 +116,7 @@ theorem DirOK.grow {d : Bytes} {ex : Option Nat} {c : Nat} {s s' : PState} (h : 
       intro hq
       rcases hT x hq hl0 with h1 | h1
       · exact hne h1
-      · exact h1.1 ho0
+      · exact h1.1.1 ho0
     rcases h x hl0 ho0 hh0 hne with h1 | h1
     · exact Or.inl (by rw [g.fiK x hl0 hTx]; exact h1)
     · refine Or.inr (h1.grow hl0 g w w' hTx ?_)
@@ -117,11 +129,12 @@ theorem DirOK.grow {d : Bytes} {ex : Option Nat} {c : Nat} {s s' : PState} (h : 
       · have := hex _ h2.symm
         rw [h1.nameOp] at this
         revert this; decide
-      · rcases h2.2 with h3 | h3 | h3
-        · exact h3 h1.nameOp
+      · rcases h2.2.1 with (h3 | h3) | h3
         · rw [((w.lP hl0).fi h1.fi).1] at h3
           exact live_ne_INV w.size_le hl0 h3
         · rw [((w.lP hl0).fi h1.fi).1, ho0] at h3
+          revert h3; decide
+        · rw [h1.nameOp] at h3
           revert h3; decide
 
 /-- freed slots carry no name: a new object that reuses one starts without a name -/
@@ -134,6 +147,237 @@ theorem FN.grow {c : Nat} {s s' : PState} (h : FN s) (g : SGrow T c s s') : FN s
   cases hq : live s.tree x with
   | false => rfl
   | true => rw [g.oldLive x hq] at hx; cases hx
+
+
+/-! ## the methods -/
+
+/-- a complete `Method`: a childless name object, a childless byte constant (the flags), a scope block -/
+def MthC (t : ObjectTree) (m : Nat) : Prop := ∃ k1 k2 k3, MK3 t m k1 k2 k3
+
+/-- every `Method` other than `ex` is complete -/
+def MthOK (ex : Option Nat) (s : PState) : Prop :=
+  ∀ m, live s.tree m = true → (slot s.tree m).opcode = opMethod → some m ≠ ex → MthC s.tree m
+
+theorem MthOK.weaken {s : PState} (h : MthOK none s) (ex : Option Nat) : MthOK ex s :=
+  fun m hl ho _ => h m hl ho (by intro hc; cases hc)
+
+theorem MthOK.ofSome {s : PState} {c : Nat} (h : MthOK (some c) s) (hc : (slot s.tree c).opcode ≠ opMethod) : MthOK none s := by
+  intro m hl ho _
+  exact h m hl ho (by intro e; cases e; exact hc ho)
+
+theorem MthOK.close {s : PState} {c : Nat} (h : MthOK (some c) s) (hc : MthC s.tree c) : MthOK none s := by
+  intro m hl ho _
+  by_cases hm : m = c
+  · rw [hm]; exact hc
+  · exact h m hl ho (by intro e; cases e; exact hm rfl)
+
+theorem MthOK.ofTree {ex : Option Nat} {s s' : PState} (h : MthOK ex s) (ht : s'.tree = s.tree) : MthOK ex s' := by
+  unfold MthOK; rw [ht]; exact h
+
+theorem mth_ops : opIntNamePath ≠ opMethod ∧ opBytePrefix ≠ opMethod ∧ opIntScopeBlock ≠ opMethod ∧
+    opIntNamePath ≠ opIntScopeBlock ∧ opBytePrefix ≠ opIntScopeBlock ∧ opIntNamePath ≠ opScope ∧ opBytePrefix ≠ opScope ∧
+    opMethod ≠ opIntScopeBlock ∧ opMethod ≠ opScope := by decide
+
+/-- a complete method stays complete along a step that touches neither it nor its name and flags -/
+theorem MthC.grow {c : Nat} {s s' : PState} {m : Nat} (h : MthC s.tree m) (hm : live s.tree m = true)
+    (g : SGrow T c s s') (w : WF s.tree) (hTm : ¬ T m)
+    (hTk : ∀ y, T y → live s.tree y = true → C13.P s.tree y = m → (slot s.tree y).opcode = opIntScopeBlock) : MthC s'.tree m := by
+  obtain ⟨k1, k2, k3, mk⟩ := h
+  obtain ⟨p1, p2, p3, _, _, _⟩ := mk.parents w hm
+  have hmINV : m ≠ INV := live_ne_INV w.size_le hm
+  have hT1 : ¬ T k1 := fun hq => by
+    have := hTk k1 hq mk.l1 p1
+    rw [mk.o1] at this; exact mth_ops.2.2.2.1 this
+  have hT2 : ¬ T k2 := fun hq => by
+    have := hTk k2 hq mk.l2 p2
+    rw [mk.o2] at this; exact mth_ops.2.2.2.2.1 this
+  have q1 := g.kidK k1 mk.l1 (by rw [p1]; exact hmINV) (by rw [p1]; exact hTm)
+  have q2 := g.kidK k2 mk.l2 (by rw [p2]; exact hmINV) (by rw [p2]; exact hTm)
+  have q3 := g.kidK k3 mk.l3 (by rw [p3]; exact hmINV) (by rw [p3]; exact hTm)
+  have q0 := g.payK m hm hTm (Or.inl mk.att)
+  refine ⟨k1, k2, k3, mk.transfer (fun x hx _ => g.oldLive x hx) (g.fiK m hm hTm) q1.1 q2.1 q3.1
+    (g.fiK k1 mk.l1 hT1) (g.fiK k2 mk.l2 hT2) ?_ (by rw [g.oldP m hm]; exact mk.att)⟩
+  intro x hx
+  rcases hx with e | e | e | e
+  · rw [e]; exact q0
+  · rw [e]; exact q1.2
+  · rw [e]; exact q2.2
+  · rw [e]; exact q3.2
+
+/-- the methods along a step -/
+theorem MthOK.grow {ex : Option Nat} {c : Nat} {s s' : PState} (h : MthOK ex s) (g : SGrow T c s s')
+    (w : WF s.tree) (hT : ∀ y, T y → live s.tree y = true → TOK s ex y) (hex : ExK s ex)
+    (hfresh : ∀ x, live s.tree x = false → live s'.tree x = true → (slot s'.tree x).opcode = opMethod → some x = ex) :
+    MthOK ex s' := by
+  intro m hl ho hne
+  cases hl0 : live s.tree m with
+  | false => exact absurd (hfresh m hl0 hl ho) hne
+  | true =>
+    have ho0 : (slot s.tree m).opcode = opMethod := (g.kfr.mK m hl0).1 ho
+    have hc := h m hl0 ho0 hne
+    refine hc.grow hl0 g w ?_ ?_
+    · intro hq
+      rcases hT m hq hl0 with h1 | h1
+      · exact hne h1
+      · exact h1.1.2 ho0
+    · intro y hq hy hpy
+      obtain ⟨k1, k2, k3, mk⟩ := hc
+      rcases mk.kids w hl0 y hy hpy with e | e | e
+      · exfalso
+        rcases hT y hq hy with h1 | h1
+        · rcases hex y h1.symm with h2 | h2
+          · rw [e, mk.o1] at h2; exact mth_ops.2.2.2.2.2.1 h2
+          · rw [e, mk.o1] at h2; exact mth_ops.1 h2
+        · rcases h1.2.1 with (h3 | h3) | h3
+          · rw [hpy] at h3; exact live_ne_INV w.size_le hl0 h3
+          · rw [hpy, ho0] at h3; exact mth_ops.2.2.2.2.2.2.2.1 h3
+          · rw [e, mk.o1] at h3; exact mth_ops.2.2.2.1 h3
+      · exfalso
+        rcases hT y hq hy with h1 | h1
+        · rcases hex y h1.symm with h2 | h2
+          · rw [e, mk.o2] at h2; exact mth_ops.2.2.2.2.2.2.1 h2
+          · rw [e, mk.o2] at h2; exact mth_ops.2.1 h2
+        · rcases h1.2.1 with (h3 | h3) | h3
+          · rw [hpy] at h3; exact live_ne_INV w.size_le hl0 h3
+          · rw [hpy, ho0] at h3; exact mth_ops.2.2.2.2.2.2.2.1 h3
+          · rw [e, mk.o2] at h3; exact mth_ops.2.2.2.2.1 h3
+      · rw [e]; exact mk.o3
+
+/-- one fresh object, which becomes the exception -/
+theorem MthOK.freshEx {n : Nat} {s s' : PState} (h : MthOK none s) (f : Fresh1 n s s') (w : WF s.tree) : MthOK (some n) s' := by
+  intro m hl ho hne
+  have hmn : m ≠ n := fun e => hne (by rw [e])
+  have hl0 : live s.tree m = true := by rw [← f.livex m hmn]; exact hl
+  have ho0 : (slot s.tree m).opcode = opMethod := by rw [← f.old m hmn]; exact ho
+  exact (h m hl0 ho0 (by intro hc; cases hc)).grow (T := fun _ => False) hl0 (SGrow.ofFresh1 f) w (fun hq => hq)
+    (fun _ hq _ _ => False.elim hq)
+
+/-- `append(obj, arg)` under the exception or under an object far from every method -/
+theorem MthOK.append {ex : Option Nat} {s1 s2 : PState} (h : MthOK ex s1) (w1 : WF s1.tree)
+    {obj arg : Nat} (ha : C13.P s1.tree arg = INV) (ho : live s1.tree obj = true)
+    (hobj : (some obj = ex ∧ ((slot s1.tree obj).opcode = opScope ∨ (slot s1.tree obj).opcode = opMethod)) ∨
+      (((slot s1.tree obj).opcode ≠ opScope ∧ (slot s1.tree obj).opcode ≠ opMethod) ∧
+        (ParSB s1 obj ∨ (slot s1.tree obj).opcode = opIntScopeBlock)))
+    (hl : ∀ x, live s2.tree x = live s1.tree x) (sp : SamePay s1.tree s2.tree)
+    (hP : ∀ x, C13.P s2.tree x = if x = arg then obj else C13.P s1.tree x)
+    (hNx : ∀ x, Nx s2.tree x = if x = arg then INV else if x = La s1.tree obj ∧ La s1.tree obj ≠ INV then arg else Nx s1.tree x)
+    (hFi : ∀ x, Fi s2.tree x = if x = obj ∧ La s1.tree obj = INV then arg else Fi s1.tree x) : MthOK ex s2 := by
+  intro m hm hop hne
+  have hm1 : live s1.tree m = true := by rw [← hl]; exact hm
+  have hop1 : (slot s1.tree m).opcode = opMethod := by rw [← pay_opcode (sp.pay m)]; exact hop
+  obtain ⟨k1, k2, k3, mk⟩ := h m hm1 hop1 hne
+  obtain ⟨p1, p2, p3, _, _, _⟩ := mk.parents w1 hm1
+  have hmINV : m ≠ INV := live_ne_INV w1.size_le hm1
+  have hmo : m ≠ obj := by
+    intro e
+    rcases hobj with h0 | h0
+    · exact hne (by rw [e]; exact h0.1)
+    · exact h0.1.2 (by rw [← e]; exact hop1)
+  have hka : ∀ k, C13.P s1.tree k = m → k ≠ arg := fun k hk e => hmINV (by rw [← hk, e]; exact ha)
+  have hnx : ∀ k, C13.P s1.tree k = m → Nx s2.tree k = Nx s1.tree k := by
+    intro k hk
+    rw [hNx, if_neg (hka k hk), if_neg]
+    intro hc
+    have := ((w1.lP ho).la hc.2).1
+    rw [← hc.1, hk] at this
+    exact hmo this
+  have hko : ∀ k, C13.P s1.tree k = m → (slot s1.tree k).opcode ≠ opScope → (slot s1.tree k).opcode ≠ opMethod →
+      (slot s1.tree k).opcode ≠ opIntScopeBlock → k ≠ obj := by
+    intro k hk n1 n2 n3 e
+    rcases hobj with h0 | h0
+    · rcases h0.2 with h2 | h2
+      · exact n1 (by rw [e]; exact h2)
+      · exact n2 (by rw [e]; exact h2)
+    · rcases h0.2 with (h3 | h3) | h3
+      · rw [← e, hk] at h3; exact hmINV h3
+      · rw [← e, hk, hop1] at h3; exact mth_ops.2.2.2.2.2.2.2.1 h3
+      · exact n3 (by rw [e]; exact h3)
+  have hk1o : k1 ≠ obj := hko k1 p1 (by rw [mk.o1]; exact mth_ops.2.2.2.2.2.1) (by rw [mk.o1]; exact mth_ops.1)
+    (by rw [mk.o1]; exact mth_ops.2.2.2.1)
+  have hk2o : k2 ≠ obj := hko k2 p2 (by rw [mk.o2]; exact mth_ops.2.2.2.2.2.2.1) (by rw [mk.o2]; exact mth_ops.2.1)
+    (by rw [mk.o2]; exact mth_ops.2.2.2.2.1)
+  refine ⟨k1, k2, k3, mk.transfer (fun x hx _ => by rw [hl]; exact hx) (by rw [hFi, if_neg (fun hc => hmo hc.1)])
+    (hnx k1 p1) (hnx k2 p2) (hnx k3 p3) (by rw [hFi, if_neg (fun hc => hk1o hc.1)]) (by rw [hFi, if_neg (fun hc => hk2o hc.1)])
+    (fun x _ => sp.pay x) ?_⟩
+  rw [hP, if_neg (fun e => mk.att (by rw [e]; exact ha))]
+  exact mk.att
+
+/-! ## the name-or-call objects -/
+
+/-- every unresolved name-or-call object is attached and holds the `[]byte` of its path -/
+def CSA (s : PState) : Prop :=
+  ∀ x, live s.tree x = true → (slot s.tree x).opcode = opIntNamePathOrMethodCall →
+    C13.P s.tree x ≠ INV ∧ ∃ off len, (slot s.tree x).value = .bytes off len
+
+theorem kfr_cK {s s' : PState} (h : KFr s s') (x : Nat) (hx : live s.tree x = true) :
+    (slot s'.tree x).opcode = opIntNamePathOrMethodCall ↔ (slot s.tree x).opcode = opIntNamePathOrMethodCall := by
+  rcases h.opK x hx with e | ⟨e1, e2⟩
+  · rw [e]
+  · constructor
+    · intro hq; rw [hq, isK_call] at e2; cases e2
+    · intro hq; rw [hq, isK_call] at e1; cases e1
+
+theorem CSA.ofTree {s s' : PState} (h : CSA s) (ht : s'.tree = s.tree) : CSA s' := by
+  unfold CSA; rw [ht]; exact h
+
+theorem CSA.grow {ex : Option Nat} {c : Nat} {s s' : PState} (h : CSA s) (g : SGrow T c s s')
+    (hT : ∀ y, T y → live s.tree y = true → TOK s ex y) (hex : ExK s ex)
+    (hfresh : ∀ x, live s.tree x = false → live s'.tree x = true → (slot s'.tree x).opcode = opIntNamePathOrMethodCall →
+      C13.P s'.tree x ≠ INV ∧ ∃ off len, (slot s'.tree x).value = .bytes off len) : CSA s' := by
+  intro x hl ho
+  cases hl0 : live s.tree x with
+  | false => exact hfresh x hl0 hl ho
+  | true =>
+    have ho0 := (kfr_cK g.kfr x hl0).1 ho
+    obtain ⟨hp, off, len, hv⟩ := h x hl0 ho0
+    have hTx : ¬ T x := by
+      intro hq
+      rcases hT x hq hl0 with h1 | h1
+      · rcases hex x h1.symm with h2 | h2
+        · rw [ho0] at h2; exact absurd h2 (by decide)
+        · rw [ho0] at h2; exact absurd h2 (by decide)
+      · exact h1.2.2 ho0
+    have hpay := g.payK x hl0 hTx (Or.inl hp)
+    exact ⟨by rw [g.oldP x hl0]; exact hp, off, len, by rw [pay_value hpay]; exact hv⟩
+
+theorem CSA.append {s1 s2 : PState} (h : CSA s1) (w1 : WF s1.tree) {obj arg : Nat} (ho : live s1.tree obj = true)
+    (hl : ∀ x, live s2.tree x = live s1.tree x) (sp : SamePay s1.tree s2.tree)
+    (hP : ∀ x, C13.P s2.tree x = if x = arg then obj else C13.P s1.tree x) : CSA s2 := by
+  intro x hx hop
+  obtain ⟨hp, off, len, hv⟩ := h x (by rw [← hl]; exact hx) (by rw [← pay_opcode (sp.pay x)]; exact hop)
+  refine ⟨?_, off, len, by rw [pay_value (sp.pay x)]; exact hv⟩
+  rw [hP]
+  split
+  · exact live_ne_INV w1.size_le ho
+  · exact hp
+
+/-- both invariants of the first pass: the `Scope` directives and — when `jf` holds, i.e. when the pool the table is
+parsed into had only complete methods — the `Method`s -/
+structure Both (jf : Prop) (d : Bytes) (ex : Option Nat) (s : PState) : Prop where
+  dir : DirOK d ex s
+  mth : jf → MthOK ex s
+  cs : jf → CSA s
+
+variable {jf : Prop}
+
+theorem Both.weaken {d : Bytes} {s : PState} (h : Both jf d none s) (ex : Option Nat) : Both jf d ex s :=
+  ⟨h.dir.weaken ex, fun hb => (h.mth hb).weaken ex, h.cs⟩
+
+theorem Both.ofSome {d : Bytes} {s : PState} {c : Nat} (h : Both jf d (some c) s) (h1 : (slot s.tree c).opcode ≠ opScope)
+    (h2 : (slot s.tree c).opcode ≠ opMethod) : Both jf d none s := ⟨h.dir.ofSome h1, fun hb => (h.mth hb).ofSome h2, h.cs⟩
+
+theorem Both.ofTree {d : Bytes} {ex : Option Nat} {s s' : PState} (h : Both jf d ex s) (ht : s'.tree = s.tree)
+    (hh : s'.tableHandle = s.tableHandle) : Both jf d ex s' := ⟨h.dir.ofTree ht hh, fun hb => (h.mth hb).ofTree ht, fun hb => (h.cs hb).ofTree ht⟩
+
+theorem Both.grow {d : Bytes} {ex : Option Nat} {c : Nat} {s s' : PState} (h : Both jf d ex s) (g : SGrow T c s s')
+    (w : WF s.tree) (w' : WF s'.tree) (hT : ∀ y, T y → live s.tree y = true → TOK s ex y) (hex : ExK s ex)
+    (hfresh : ∀ x, live s.tree x = false → live s'.tree x = true →
+      ((slot s'.tree x).opcode = opScope → Fi s'.tree x = INV) ∧ ((slot s'.tree x).opcode = opMethod → some x = ex) ∧
+      (slot s'.tree x).opcode ≠ opIntNamePathOrMethodCall) :
+    Both jf d ex s' :=
+  ⟨h.dir.grow g w w' hT hex (fun x h1 h2 h3 => (hfresh x h1 h2).1 h3),
+   fun hb => (h.mth hb).grow g w hT hex (fun x h1 h2 h3 => (hfresh x h1 h2).2.1 h3),
+   fun hb => (h.cs hb).grow g hT hex (fun x h1 h2 h3 => absurd h3 (hfresh x h1 h2).2.2)⟩
 
 /-! ## the name argument of a directive -/
 
@@ -161,7 +405,8 @@ theorem sliceVal_exprOK (d : Bytes) (sl : Slice) (h : ∀ b, (sliceExpr d sl)[0]
 /-- `parseSimpleArg(pArgTypeNameString)`: when it succeeds, the object it returns is a `NameObj` -/
 theorem parseSimpleArg_name {d : Bytes} (hd : d.size + 1024 ≤ 4294967296) {s : PState} (h : FP d s)
     (hsz : s.tree.pool.size < INV) :
-    ∃ a s', parseSimpleArg d argTypeNameString s = .ok (a, s') ∧ (a.2 = .ok → ∃ x, a.1 = some x ∧ NameObj d s'.tree x) := by
+    ∃ a s', parseSimpleArg d argTypeNameString s = .ok (a, s') ∧ (a.2 = .ok → ∃ x, a.1 = some x ∧ NameObj d s'.tree x ∧
+      (slot s'.tree x).infoIndex = pOpcodeTableIndex opIntNamePath true) := by
   unfold parseSimpleArg
   obtain ⟨n, s1, e1, h1, f1, hr1, hop1, _⟩ := newObject_step h 0 hsz (by decide) info_const.1
   refine bind_ex e1 ?_
@@ -197,15 +442,82 @@ theorem parseSimpleArg_name {d : Bytes} (hd : d.size + 1024 ≤ 4294967296) {s :
   have hop6 : (slot s6.tree n).opcode = opIntNamePath := by rw [hsl6, ht5, hsl4]
   obtain ⟨s7, e7, h7, hp7, hsl7, hr7⟩ := upd_step h6 hobj6
     (fun o' => { o' with infoIndex := pOpcodeTableIndex (slot s6.tree n).opcode true }) (by keeps_links) Iff.rfl
-    (by dsimp only; rw [hop6]; exact info_const.2.2.2.2.2.2.1)
+    (by dsimp only; rw [hop6]; exact info_const.2.2.2.2.2.2.1) (Or.inl rfl) (fun _ => ⟨rfl, rfl⟩)
+    (fun hq => by
+      rw [hop6] at hq
+      exact absurd hq (by decide))
   refine bind_ex e7 (pure_ex ?_)
   intro hok
-  refine ⟨n, rfl, ?_, ?_, ?_⟩
+  refine ⟨n, rfl, ⟨?_, ?_, ?_⟩, by rw [hsl7, hop6]⟩
   · rw [hsl7]; exact hop6
   · rw [hp7.links.fi, hp6.links.fi, ht5, hp4.links.fi]; exact hfi3
   · have hv : (slot s7.tree n).value = sliceVal sr.1 := by rw [hsl7, hsl6]
     rw [hv]
     exact sliceVal_exprOK d sr.1 (hlead hok)
+
+/-- `parseSimpleArg(pArgTypeByteData)`: the object it returns is a childless byte constant -/
+theorem parseSimpleArg_byte {d : Bytes} {s : PState} (h : FP d s) (hsz : s.tree.pool.size < INV) :
+    ∃ a s', parseSimpleArg d argTypeByteData s = .ok (a, s') ∧ (∀ x, a.1 = some x →
+      (slot s'.tree x).opcode = opBytePrefix ∧ Fi s'.tree x = INV ∧
+      (slot s'.tree x).infoIndex = pOpcodeTableIndex opBytePrefix true ∧ ∃ v, (slot s'.tree x).value = .u64 v) := by
+  unfold parseSimpleArg
+  obtain ⟨n, s1, e1, h1, f1, hr1, hop1, _⟩ := newObject_step h 0 hsz (by decide) info_const.1
+  refine bind_ex e1 ?_
+  obtain ⟨off, s2, e2, h2, hR2, hs2⟩ := lex_step (rel_offset d) h1
+  refine bind_ex e2 ?_
+  have ht2 : s2.tree = s1.tree := by rw [hs2]
+  have hobj : live s2.tree n = true := by rw [ht2]; exact f1.liven
+  obtain ⟨s3, e3, h3, hp3, hsl3, hr3⟩ := upd_step h2 hobj (fun o => { o with amlOffset := off }) (by keeps_links) Iff.rfl
+    (h2.tree.info _ hobj)
+  refine bind_ex e3 ?_
+  have hobj3 : live s3.tree n = true := by rw [hp3.links.live]; exact hobj
+  have hk3 : isK (slot s3.tree n).opcode = false := hp3.notK (by rw [ht2, hop1]; decide)
+  have hfi3 : Fi s3.tree n = INV := by rw [hp3.links.fi, ht2]; exact f1.fin
+  rw [if_pos rfl]
+  unfold simpleNum
+  obtain ⟨_, s4, e4, h4, hp4, hr4, hsl4⟩ := setOpcode_tot h3 hobj3 opBytePrefix (by decide) (by decide) hk3
+  refine bind_ex e4 ?_
+  have hobj4 : live s4.tree n = true := by rw [hp4.links.live]; exact hobj3
+  obtain ⟨res, s5, e5, h5, hp5, ⟨v, hv5⟩, _⟩ := setNumValue_tot h4 hobj4 1
+  refine bind_ex e5 ?_
+  have hobj5 : live s5.tree n = true := by rw [hp5.links.live]; exact hobj4
+  have hop5 : (slot s5.tree n).opcode = opBytePrefix := by rw [hv5, hsl4]
+  unfold finishSimpleArg
+  refine bind_ex (getObj_live hobj5) ?_
+  obtain ⟨s6, e6, h6, hp6, hsl6, hr6⟩ := upd_step h5 hobj5
+    (fun o' => { o' with infoIndex := pOpcodeTableIndex (slot s5.tree n).opcode true }) (by keeps_links) Iff.rfl
+    (by dsimp only; rw [hop5]; exact info_const.2.1) (Or.inl rfl) (fun _ => ⟨rfl, rfl⟩)
+    (fun hq => by
+      rw [hop5] at hq
+      exact absurd hq (by decide))
+  refine bind_ex e6 (pure_ex ?_)
+  intro x hx
+  cases hx
+  refine ⟨by rw [hsl6]; exact hop5, ?_, by rw [hsl6, hop5], v, by rw [hsl6, hv5]⟩
+  rw [hp6.links.fi, hp5.links.fi, hp4.links.fi]; exact hfi3
+
+/-- the scope block of a `TermList` carries the table row of a scope block -/
+theorem newScopeBlock_info {d : Bytes} {s : PState} (h : FP d s) (hsz : s.tree.pool.size < INV) :
+    ∃ a s', newScopeBlock s = .ok (a, s') ∧ (slot s'.tree a).infoIndex = pOpcodeTableIndex opIntScopeBlock true := by
+  unfold newScopeBlock
+  obtain ⟨n, s1, e1, h1, f1, hr1, hop1, hinfo1, hidx1⟩ := newObject_step h opIntScopeBlock hsz (by decide) info_const.2.2.2.2.2.2.2.2.1
+  refine bind_ex e1 ?_
+  obtain ⟨off, s2, e2, h2, hR2, hs2⟩ := lex_step (rel_offset d) h1
+  refine bind_ex e2 ?_
+  have hss : s2 = s1 := by rw [hs2, hR2.2]
+  subst hss
+  have hobj : live s2.tree n = true := f1.liven
+  obtain ⟨s3, e3, h3, hp3, hsl3, hr3⟩ := upd_step h2 hobj (fun o => { o with amlOffset := off }) (by keeps_links) Iff.rfl
+    (h2.tree.info _ hobj)
+  refine bind_ex e3 ?_
+  have hobj3 : live s3.tree n = true := by rw [hp3.links.live]; exact hobj
+  refine bind_ex (getObj_live hobj3) ?_
+  have hidx : (slot s3.tree n).index = n := by rw [hsl3]; exact hidx1
+  rw [hidx]
+  have e4 : scopeEnter n s3 = .ok ((), { s3 with scopeStack := s3.scopeStack.push n }) := rfl
+  refine bind_ex e4 (pure_ex ?_)
+  show (slot s3.tree n).infoIndex = _
+  rw [hsl3]; exact hinfo1
 
 /-! ## the state of the first pass and the contracts -/
 
@@ -228,17 +540,36 @@ theorem KP.step {d : Bytes} {c : Nat} {s s' : PState} (h : KP d s) (hf : FP d s'
   · exact (g.kfr.bK x (h.fp.scopes x h0)).2 (h.ns x h0)
   · exact h0
 
-/-- the directive invariant while argument `j` of `curObj` is read: a `Scope` gets its name and its block -/
-def DIRx (d : Bytes) (s : PState) (curObj j : Nat) : Prop :=
+/-- a childless name-path object with its table row -/
+def NameObj2 (t : ObjectTree) (c : Nat) : Prop :=
+  (slot t c).opcode = opIntNamePath ∧ Fi t c = INV ∧ (slot t c).infoIndex = pOpcodeTableIndex opIntNamePath true
+
+/-- a childless byte constant with its table row -/
+def ByteObj (t : ObjectTree) (c : Nat) : Prop :=
+  (slot t c).opcode = opBytePrefix ∧ Fi t c = INV ∧ (slot t c).infoIndex = pOpcodeTableIndex opBytePrefix true ∧
+    ∃ v, (slot t c).value = .u64 v
+
+/-- the invariant while argument `j` of `curObj` is read: a `Scope` gets its name and its block, a `Method` its name,
+its flags and its block -/
+def DIRx (jf : Prop) (d : Bytes) (s : PState) (curObj j : Nat) : Prop :=
   if (slot s.tree curObj).opcode = opScope then
     (slot s.tree curObj).name.b0 = 0 ∧ C13.P s.tree curObj ≠ INV ∧ (slot s.tree curObj).infoIndex = scopeInfo ∧
-    (j ≤ 1 → DirOK d (some curObj) s ∧ Fi s.tree curObj = INV ∧ La s.tree curObj = INV) ∧
-    (j = 2 → DirOK d (some curObj) s ∧ La s.tree curObj = Fi s.tree curObj ∧ live s.tree (Fi s.tree curObj) = true ∧
+    (j ≤ 1 → Both jf d (some curObj) s ∧ Fi s.tree curObj = INV ∧ La s.tree curObj = INV) ∧
+    (j = 2 → Both jf d (some curObj) s ∧ La s.tree curObj = Fi s.tree curObj ∧ live s.tree (Fi s.tree curObj) = true ∧
       NameObj d s.tree (Fi s.tree curObj)) ∧
-    (3 ≤ j → DirOK d none s)
-  else DirOK d none s
+    (3 ≤ j → Both jf d none s)
+  else if (slot s.tree curObj).opcode = opMethod then
+    C13.P s.tree curObj ≠ INV ∧ (slot s.tree curObj).infoIndex = methodInfoIdx ∧
+    (j ≤ 1 → Both jf d (some curObj) s ∧ Fi s.tree curObj = INV ∧ La s.tree curObj = INV) ∧
+    (j = 2 → Both jf d (some curObj) s ∧ La s.tree curObj = Fi s.tree curObj ∧ live s.tree (Fi s.tree curObj) = true ∧
+      NameObj2 s.tree (Fi s.tree curObj)) ∧
+    (j = 3 → Both jf d (some curObj) s ∧ live s.tree (Fi s.tree curObj) = true ∧ NameObj2 s.tree (Fi s.tree curObj) ∧
+      Nx s.tree (Fi s.tree curObj) = La s.tree curObj ∧ live s.tree (La s.tree curObj) = true ∧
+      ByteObj s.tree (La s.tree curObj)) ∧
+    (4 ≤ j → Both jf d none s)
+  else Both jf d none s
 
-theorem DIRx.toSome {d : Bytes} {s : PState} {curObj j : Nat} (h : DIRx d s curObj j) : DirOK d (some curObj) s := by
+theorem DIRx.toSome {d : Bytes} {s : PState} {curObj j : Nat} (h : DIRx jf d s curObj j) : Both jf d (some curObj) s := by
   unfold DIRx at h
   split at h
   · obtain ⟨_, _, _, h1, h2, h3⟩ := h
@@ -247,65 +578,87 @@ theorem DIRx.toSome {d : Bytes} {s : PState} {curObj j : Nat} (h : DIRx d s curO
     · by_cases q2 : j = 2
       · exact (h2 q2).1
       · exact (h3 (by omega)).weaken _
-  · exact h.weaken _
+  · split at h
+    · obtain ⟨_, _, h1, h2, h3, h4⟩ := h
+      by_cases q1 : j ≤ 1
+      · exact (h1 q1).1
+      · by_cases q2 : j = 2
+        · exact (h2 q2).1
+        · by_cases q3 : j = 3
+          · exact (h3 q3).1
+          · exact (h4 (by omega)).weaken _
+    · exact h.weaken _
 
 /-- panic-freedom (and the directive invariant) of the mutually recursive functions with fuel `f` in the first pass -/
-structure FNP (d : Bytes) (f : Nat) : Prop where
-  target : ∀ {s : PState}, KP d s → DirOK d none s → Bud d 1 s →
-    NPs (parseTarget d f) s (fun a s' => PostF d (fun _ => False) 1 s s' (a.2 ≠ .failed) (DirOK d none s') ∧ RetOK s s' a.1)
+structure FNP (jf : Prop) (d : Bytes) (f : Nat) : Prop where
+  target : ∀ {s : PState}, KP d s → Both jf d none s → Bud d 1 s →
+    NPs (parseTarget d f) s (fun a s' => PostF d (fun _ => False) 1 s s' (a.2 ≠ .failed) (Both jf d none s') ∧ RetOK s s' a.1)
   arg : ∀ {s : PState} (info curObj argType : Nat) (ex : Option Nat), KP d s → live s.tree curObj = true → InfoOK info →
     Bud d 2 s → argType ≠ argTypeByteList →
     (argType = argTypeFieldList → C13.P s.tree curObj ≠ INV ∧ live s.tree (La s.tree curObj) = true ∧
       ∃ v, (slot s.tree (La s.tree curObj)).value = .u64 v) →
-    DirOK d ex s → (∀ e, ex = some e → e = curObj ∧ (slot s.tree curObj).opcode = opScope) →
-    ((slot s.tree curObj).opcode = opScope → ex = some curObj) →
-    ParSB s curObj → (ex ≠ none → Leaf argType ∨ argType = argTypeTermList) →
-    NPs (parseArg d f info curObj argType) s (fun a s' => PostF d (TCur s curObj) 2 s s' (a.2 ≠ .failed) (DirOK d ex s') ∧
+    Both jf d ex s → (∀ e, ex = some e → e = curObj ∧ ((slot s.tree curObj).opcode = opScope ∨ (slot s.tree curObj).opcode = opMethod)) →
+    ((slot s.tree curObj).opcode = opScope ∨ (slot s.tree curObj).opcode = opMethod → ex = some curObj) →
+    ParSB s curObj → (ex ≠ none → Leaf argType ∨ argType = argTypeTermList) → (slot s.tree curObj).opcode ≠ opIntNamePathOrMethodCall →
+    NPs (parseArg d f info curObj argType) s (fun a s' => PostF d (TCur s curObj) 2 s s' (a.2 ≠ .failed) (Both jf d ex s') ∧
       RetOK s s' a.1 ∧
       (Leaf argType → (∀ x, live s.tree x = true → x ≠ curObj → slot s'.tree x = slot s.tree x) ∧
         Fi s'.tree curObj = Fi s.tree curObj ∧ La s'.tree curObj = La s.tree curObj) ∧
       (argType = argTypeByteData → a.2 = .ok → ∃ x v, a.1 = some x ∧ (slot s'.tree x).value = .u64 v) ∧
       (argType = argTypePkgLen → a.1 = none) ∧ (isSimpleArg argType = true → a.2 = .ok → ∃ x, a.1 = some x) ∧
       (argType = argTypeNameString → a.2 = .ok → ∃ x, a.1 = some x ∧ NameObj d s'.tree x) ∧
-      (argType = argTypeTermList → a.2 ≠ .failed → ∃ x, a.1 = some x ∧ (slot s'.tree x).opcode = opIntScopeBlock) ∧
+      (argType = argTypeTermList → a.2 ≠ .failed → ∃ x, a.1 = some x ∧ (slot s'.tree x).opcode = opIntScopeBlock ∧
+        (slot s'.tree x).infoIndex = pOpcodeTableIndex opIntScopeBlock true) ∧
       (argType = argTypeTermArg ∨ argType = argTypeTermList → a.2 ≠ .ok) ∧
       (Leaf argType ∨ argType = argTypeTermList → (slot s'.tree curObj).infoIndex = (slot s.tree curObj).infoIndex) ∧
       (argType = argTypeTermList → ∀ x, live s.tree x = true → slot s'.tree x = slot s.tree x) ∧
-      (isSimpleArg argType = true → a.2 = .ok ∨ a.2 = .failed))
+      (isSimpleArg argType = true → a.2 = .ok ∨ a.2 = .failed) ∧
+      (argType = argTypeNameString → a.2 = .ok → ∀ x, a.1 = some x → NameObj2 s'.tree x) ∧
+      (argType = argTypeByteData → a.2 = .ok → ∀ x, a.1 = some x → ByteObj s'.tree x) ∧
+      (argType = argTypePkgLen → a.2 = .ok ∨ a.2 = .failed ∨ ∃ fl, opFlags info = some fl ∧ hasFlag fl flagDeferParsing = true))
   args : ∀ {s : PState} (info curObj j : Nat), KP d s → live s.tree curObj = true → InfoOK info → rowFacts info = true →
     j ≤ argCnt info → Bud d (2 * (7 - j)) s → Att s info curObj → PrevOK s info curObj j →
-    (1 ≤ j → argAt info (j - 1) ≠ argTypeTermArg) → DIRx d s curObj j →
-    ((slot s.tree curObj).opcode = opScope → info = scopeInfo) → ParSB s curObj →
-    NPs (parseArgs d f info curObj j) s (fun res s' => PostF d (TCur s curObj) (2 * (7 - j)) s s' (res ≠ .failed) (DirOK d none s'))
+    (1 ≤ j → argAt info (j - 1) ≠ argTypeTermArg) → DIRx jf d s curObj j →
+    ((slot s.tree curObj).opcode = opScope → info = scopeInfo) → ((slot s.tree curObj).opcode = opMethod → info = methodInfoIdx) →
+    ParSB s curObj → (slot s.tree curObj).opcode ≠ opIntNamePathOrMethodCall →
+    NPs (parseArgs d f info curObj j) s (fun res s' => PostF d (TCur s curObj) (2 * (7 - j)) s s' (res ≠ .failed) (Both jf d none s'))
   objArgs : ∀ {s : PState} (curObj : Nat), KP d s → live s.tree curObj = true →
     rowFacts (slot s.tree curObj).infoIndex = true → Att s (slot s.tree curObj).infoIndex curObj → Bud d 14 s →
-    DIRx d s curObj 0 → ParSB s curObj →
-    NPs (parseObjectArgs d f curObj) s (fun res s' => PostF d (TCur s curObj) 14 s s' (res ≠ .failed) (DirOK d none s'))
-  next : ∀ {s : PState}, KP d s → DirOK d none s → s.scopeStack.size ≠ 0 → Bud d 0 s →
-    NPs (parseNextObject d f) s (fun res s' => PostF d (TTop s) 0 s s' (res ≠ .failed) (DirOK d none s'))
+    DIRx jf d s curObj 0 → ParSB s curObj → (slot s.tree curObj).opcode ≠ opIntNamePathOrMethodCall →
+    NPs (parseObjectArgs d f curObj) s (fun res s' => PostF d (TCur s curObj) 14 s s' (res ≠ .failed) (Both jf d none s'))
+  next : ∀ {s : PState}, KP d s → Both jf d none s → s.scopeStack.size ≠ 0 → Bud d 0 s →
+    NPs (parseNextObject d f) s (fun res s' => PostF d (TTop s) 0 s s' (res ≠ .failed) (Both jf d none s'))
 
-theorem target_ops : isTargetOp opScope = false ∧ isTargetOp opIntNamePath = false := by decide +kernel
+theorem target_ops : isTargetOp opScope = false ∧ isTargetOp opIntNamePath = false ∧ isTargetOp opMethod = false ∧
+    isTargetOp opIntNamePathOrMethodCall = false ∧ pOpcodeTableIndex opIntNamePathOrMethodCall false = badOpcode := by
+  decide +kernel
 
 theorem notScope_of_notK {op : Nat} (h : isK op = false) : op ≠ opScope := by
   intro e; rw [e, isK_scope] at h; cases h
 
 /-- one fresh object -/
-theorem DirOK.fresh1 {d : Bytes} {ex : Option Nat} {n : Nat} {s s' : PState} (h : DirOK d ex s) (f : Fresh1 n s s')
-    (w : WF s.tree) (w' : WF s'.tree) (hex : ∀ e, ex = some e → (slot s.tree e).opcode = opScope) : DirOK d ex s' := by
+theorem Both.fresh1 {d : Bytes} {ex : Option Nat} {n : Nat} {s s' : PState} (h : Both jf d ex s) (f : Fresh1 n s s')
+    (w : WF s.tree) (w' : WF s'.tree) (hex : ExK s ex)
+    (hnM : (slot s'.tree n).opcode ≠ opMethod ∨ some n = ex)
+    (hnC : (slot s'.tree n).opcode ≠ opIntNamePathOrMethodCall) : Both jf d ex s' := by
   refine h.grow (T := fun _ => False) (SGrow.ofFresh1 f) w w' (fun _ hq _ => False.elim hq) hex ?_
-  intro x h1 h2 _
+  intro x h1 h2
   by_cases hx : x = n
-  · rw [hx]; exact f.fin
+  · rw [hx]
+    refine ⟨fun _ => f.fin, fun ho => ?_, hnC⟩
+    rcases hnM with h0 | h0
+    · exact absurd ho h0
+    · exact h0
   · rw [f.livex x hx, h1] at h2; cases h2
 
 /-- `parseTarget()` in the first pass -/
-theorem target_stepF {d : Bytes} (hd : d.size + 268435456 ≤ 4294967296) {f : Nat} (ih : FNP d f) {s : PState}
-    (hS : KP d s) (hdir : DirOK d none s) (hb : Bud d 1 s) :
-    NPs (parseTarget d (f + 1)) s (fun a s' => PostF d (fun _ => False) 1 s s' (a.2 ≠ .failed) (DirOK d none s') ∧ RetOK s s' a.1) := by
+theorem target_stepF {d : Bytes} (hd : d.size + 268435456 ≤ 4294967296) {f : Nat} (ih : FNP jf d f) {s : PState}
+    (hS : KP d s) (hdir : Both jf d none s) (hb : Bud d 1 s) :
+    NPs (parseTarget d (f + 1)) s (fun a s' => PostF d (fun _ => False) 1 s s' (a.2 ≠ .failed) (Both jf d none s') ∧ RetOK s s' a.1) := by
   have hd' : d.size + 1024 ≤ 4294967296 := by omega
   have h := hS.fp
   have w := h.tree.wf
-  have hexn : ∀ e, (none : Option Nat) = some e → (slot s.tree e).opcode = opScope := fun _ hq => by cases hq
+  have hexn : ExK s none := ExK.none s
   unfold parseTarget
   obtain ⟨o0, s1, e1, h1, hR1, hs1⟩ := lex_step (rel_offset d) h
   refine NPs.step e1 ?_
@@ -341,14 +694,21 @@ theorem target_stepF {d : Bytes} (hd : d.size + 268435456 ≤ 4294967296) {f : N
     have f6 := (f4.thenPay hp5).thenPay hp6
     have g6 : SGrow (fun _ => False) 1 s3 s6 := SGrow.ofFresh1 f6
     refine NPs.step e6 (NPs.pure ⟨⟨hS.step h6 g6 (fun x hx => Or.inl (by rw [← f6.scope]; exact hx)), g6,
-      by rw [f6.scope]; exact Nat.le_refl _, fun _ => hdir.fresh1 f6 w h6.tree.wf hexn⟩, ?_⟩)
+      by rw [f6.scope]; exact Nat.le_refl _, fun _ => hdir.fresh1 f6 w h6.tree.wf hexn
+        (Or.inl (fun ho => by
+          have := (hp5.mth).1 ((hp6.mth).1 ho)
+          rw [hop4] at this; exact mth_ops.1 this))
+        (by
+          have hk4 : isK (slot s4.tree n).opcode = false := by rw [hop4]; decide
+          have hk6 := hp6.notK (hp5.notK hk4)
+          intro e; rw [e, isK_call] at hk6; cases hk6)⟩, ?_⟩)
     intro a ha
     cases ha
     exact ⟨f6.nlive, f6.liven, f6.pn⟩
   · rw [if_pos hok]
     have g2 : SGrow (fun _ => False) 0 s1 s2 := SGrow.ofLex hs2 (by omega)
     have hS2 : KP d s2 := hS.step h2 g2 (fun x hx => Or.inl (by rw [← hsc2]; exact hx))
-    have hdir2 : DirOK d none s2 := hdir.ofTree ht2 (by rw [hs2])
+    have hdir2 : Both jf d none s2 := hdir.ofTree ht2 (by rw [hs2])
     by_cases hz : opr.1 = opZero
     · rw [if_pos hz]
       exact NPs.pure ⟨⟨hS2, g2.weaken (by omega), by rw [hsc2]; exact Nat.le_refl _, fun _ => hdir2⟩, fun a ha => by cases ha⟩
@@ -367,7 +727,11 @@ theorem target_stepF {d : Bytes} (hd : d.size + 268435456 ≤ 4294967296) {f : N
         have hnS : opr.1 ≠ opScope := by
           intro hq; rw [hq, target_ops.1] at htop; cases htop
         have hnNP : opr.1 ≠ opIntNamePath := by
-          intro hq; rw [hq, target_ops.2] at htop; cases htop
+          intro hq; rw [hq, target_ops.2.1] at htop; cases htop
+        have hnM : opr.1 ≠ opMethod := by
+          intro hq; rw [hq, target_ops.2.2.1] at htop; cases htop
+        have hnC : opr.1 ≠ opIntNamePathOrMethodCall := by
+          intro hq; rw [hq, target_ops.2.2.2.1] at htop; cases htop
         obtain ⟨hrow, hinfo, hnf, hnofl⟩ := op_facts hop hbad
         have hb2 : Bud d 17 s2 := hb.consume ht2 hlt h2.inv.1
         obtain ⟨n, s3, e3, h3, f3, hr3, hop3, hinfo3, _⟩ := newObject_step h2 opr.1 (hb2.mono (k' := 1) (by omega)).size_lt hnf hinfo
@@ -383,16 +747,17 @@ theorem target_stepF {d : Bytes} (hd : d.size + 268435456 ≤ 4294967296) {f : N
         have g4 : SGrow (TCur s4 n) 1 s2 s4 := SGrow.ofFresh1 f4
         have hb4 : Bud d 14 s4 := by
           have := budS hb2 g4 h4.inv.1 (by omega); exact this.mono (by omega)
-        have hdir4 : DirOK d none s4 := hdir2.fresh1 f4 h2.tree.wf h4.tree.wf (fun _ hq => by cases hq)
+        have hdir4 : Both jf d none s4 := hdir2.fresh1 f4 h2.tree.wf h4.tree.wf (ExK.none s2)
+          (Or.inl (by rw [hop4]; exact hnM)) (by rw [hop4]; exact hnC)
         have hsc4 : s4.scopeStack = s1.scopeStack := by rw [f4.scope, hsc2]
         have g14 : SGrow (TCur s4 n) 1 s1 s4 := (SGrow.ofLex hs2 (by omega)).trans g4
         have hS4 : KP d s4 := hS.step h4 g14 (fun x hx => Or.inl (by rw [← hsc4]; exact hx))
-        have hdx : DIRx d s4 n 0 := by
+        have hdx : DIRx jf d s4 n 0 := by
           unfold DIRx
-          rw [if_neg (by rw [hop4]; exact hnS)]
+          rw [if_neg (by rw [hop4]; exact hnS), if_neg (by rw [hop4]; exact hnM)]
           exact hdir4
         have := ih.objArgs (s := s4) n hS4 hobj4 (by rw [hinfo4]; exact hrow) (Or.inr (by rw [hinfo4]; exact hnofl htop)) hb4
-          hdx (Or.inl f4.pn)
+          hdx (Or.inl f4.pn) (by rw [hop4]; exact hnC)
         refine NPs.bind this ?_
         intro res s5 ⟨hS5, g5, hsz5, hok5⟩
         have hn1 : live s1.tree n = false := by rw [← ht2]; exact f4.nlive
@@ -415,7 +780,8 @@ theorem parsePkgLenArg_skip {d : Bytes} (hd : d.size + 268435456 ≤ 4294967296)
     ∃ a s', parsePkgLenArg d info curObj s = .ok (a, s') ∧ FP d s' ∧ a.1 = none ∧ s'.scopeStack = s.scopeStack ∧
       (∃ sm, PayOnly curObj s sm ∧ s'.tree = sm.tree ∧ sm.r.offset ≤ s'.r.offset + 4 ∧ s.r.offset ≤ s'.r.offset ∧
         (s'.allBlocks = s.allBlocks ∧ s'.tableHandle = s.tableHandle ∧ s'.streamEnd = s.streamEnd) ∧
-        (slot sm.tree curObj).infoIndex = (slot s.tree curObj).infoIndex) := by
+        (slot sm.tree curObj).infoIndex = (slot s.tree curObj).infoIndex) ∧
+      (a.2 = .ok ∨ a.2 = .failed ∨ ∃ fl, opFlags info = some fl ∧ hasFlag fl flagDeferParsing = true) := by
   unfold parsePkgLenArg
   obtain ⟨o0, s1, e1, h1, hR1, hs1⟩ := lex_step (rel_offset d) h
   refine bind_ex e1 ?_
@@ -436,8 +802,13 @@ theorem parsePkgLenArg_skip {d : Bytes} (hd : d.size + 268435456 ≤ 4294967296)
     · rw [hr]
     · exact hp
   have p12 : PayOnly curObj s1 s2 := PayOnly.ofLex curObj hs2 hpk2 hle2
+  have hres2 : pr.2 = .ok ∨ pr.2 = .failed := by
+    rcases hR2.1 with ⟨hf, _⟩ | ⟨hk, _⟩
+    · exact Or.inr hf
+    · exact Or.inl hk
   split
-  · exact pure_ex ⟨h2, rfl, hsc2, s2, p12, rfl, by omega, hle2, hsame2, by rw [ht2]⟩
+  · exact pure_ex ⟨h2, rfl, hsc2, ⟨s2, p12, rfl, by omega, hle2, hsame2, by rw [ht2]⟩,
+      hres2.elim Or.inl (fun hf => Or.inr (Or.inl hf))⟩
   · rename_i hok
     have hok : pr.2 = .ok := by
       by_cases hq : pr.2 = .ok
@@ -457,13 +828,14 @@ theorem parsePkgLenArg_skip {d : Bytes} (hd : d.size + 268435456 ≤ 4294967296)
     rw [hu]
     split
     · -- deferred: remember the end of the block and skip it
+      rename_i hdf
       have hc2 : live s2.tree curObj = true := by rw [ht2]; exact hc
       obtain ⟨s3, e3, h3, hp3, hsl3, hr3⟩ := upd_step h2 hc2 (fun o => { o with pkgEnd := s1.r.offset + pr.1 }) (by keeps_links) Iff.rfl
         (h2.tree.info curObj hc2)
       refine bind_ex e3 ?_
       obtain ⟨_, s4, e4, h4, hR4, hs4⟩ := lex_step (rel_setOffset d (s1.r.offset + pr.1)) h3
-      refine bind_ex e4 (pure_ex ⟨h4, rfl, by rw [hs4]; show s3.scopeStack = _; rw [hp3.scope, hsc2], s3, p12.trans hp3, by rw [hs4], ?_, ?_, ?_,
-        by rw [hsl3, ht2]⟩)
+      refine bind_ex e4 (pure_ex ⟨h4, rfl, by rw [hs4]; show s3.scopeStack = _; rw [hp3.scope, hsc2], ⟨s3, p12.trans hp3, by rw [hs4], ?_, ?_, ?_,
+        by rw [hsl3, ht2]⟩, Or.inr (Or.inr ⟨fl, rfl, hdf.2⟩)⟩)
       · rw [hR4.2, hr3]; split <;> omega
       · rw [hR4.2]; split <;> omega
       · rw [hs4]; show s3.allBlocks = _ ∧ s3.tableHandle = _ ∧ s3.streamEnd = _
@@ -477,14 +849,14 @@ theorem parsePkgLenArg_skip {d : Bytes} (hd : d.size + 268435456 ≤ 4294967296)
         ⟨h3, by rw [hs3]; exact hsc2, s2, p12, by rw [hs3], by rw [ho3]; omega, by rw [ho3]; exact hle2,
          by rw [hs3]; exact hsame2, by rw [ht2]⟩
       split
-      · exact pure_ex ⟨fin.1, rfl, fin.2⟩
-      · exact pure_ex ⟨fin.1, rfl, fin.2⟩
+      · exact pure_ex ⟨fin.1, rfl, fin.2.1, fin.2.2, Or.inr (Or.inl rfl)⟩
+      · exact pure_ex ⟨fin.1, rfl, fin.2.1, fin.2.2, Or.inl rfl⟩
 
-/-- a payload-only step on `obj`: the exception, or neither a `Scope` nor a name-path object, under a scope block -/
-theorem DirOK.pay1 {d : Bytes} {ex : Option Nat} {obj : Nat} {s s' : PState} (h : DirOK d ex s) (hp : PayOnly obj s s')
+/-- a payload-only step on `obj`: the exception, or neither a `Scope` nor a `Method`, under a scope block -/
+theorem Both.pay1 {d : Bytes} {ex : Option Nat} {obj : Nat} {s s' : PState} (h : Both jf d ex s) (hp : PayOnly obj s s')
     (w : WF s.tree) (w' : WF s'.tree) (ho : live s.tree obj = true)
-    (hobj : some obj = ex ∨ ((slot s.tree obj).opcode ≠ opScope ∧ ((slot s.tree obj).opcode ≠ opIntNamePath ∨ ParSB s obj)))
-    (hpar : ParSB s obj) (hex : ∀ e, ex = some e → (slot s.tree e).opcode = opScope) : DirOK d ex s' := by
+    (hobj : TOK s ex obj)
+    (hpar : ParSB s obj) (hex : ExK s ex) : Both jf d ex s' := by
   have g : SGrow (TCur s obj) 0 s s' := SGrow.ofPay hp (by
     rcases hpar with hq | _
     · exact Or.inl hq
@@ -495,8 +867,8 @@ theorem DirOK.pay1 {d : Bytes} {ex : Option Nat} {obj : Nat} {s s' : PState} (h 
     · rw [hT]; exact hobj
     · rcases hpar with hq | hq
       · rw [hT, hq, live_not_INV w] at hl; cases hl
-      · rw [hT]; exact Or.inr ⟨by rw [hq]; decide, Or.inl (by rw [hq]; decide)⟩
-  · intro x h1 h2 _
+      · rw [hT]; exact Or.inr ⟨⟨by rw [hq]; decide, by rw [hq]; decide⟩, Or.inr hq, by rw [hq]; decide⟩
+  · intro x h1 h2
     rw [hp.links.live, h1] at h2; cases h2
 
 /-- a payload-only step followed by a reader / stack change -/
@@ -509,60 +881,67 @@ theorem sgrow_ofPayLex {obj : Nat} {s sm s' : PState} (hp : PayOnly obj s sm) (h
     fun x hx => by rw [ht]; exact g.oldLive x hx, fun x hx hq => by rw [ht]; exact g.fiK x hx hq,
     fun x hx h1 h2 => by rw [ht]; exact g.kidK x hx h1 h2, fun x hx h1 h2 => by rw [ht]; exact g.payK x hx h1 h2,
     ⟨fun x hx => by rw [ht]; exact g.kfr.opK x hx, fun x hx hk => by rw [ht]; exact g.kfr.nameKK x hx hk,
-     fun x hx => by rw [ht] at hx ⊢; exact g.kfr.deadK x hx⟩, hsame⟩
+     fun x hx => by rw [ht] at hx ⊢; exact g.kfr.deadK x hx, fun x hx hk => by rw [ht]; exact g.kfr.infoKK x hx hk⟩, hsame⟩
 
 /-- `parseArg(info, curObj, argType)` in the first pass -/
-theorem arg_stepF {d : Bytes} (hd : d.size + 268435456 ≤ 4294967296) {f : Nat} (ih : FNP d f) {s : PState}
+theorem arg_stepF {d : Bytes} (hd : d.size + 268435456 ≤ 4294967296) {f : Nat} (ih : FNP jf d f) {s : PState}
     (info curObj argType : Nat) (ex : Option Nat) (hS : KP d s) (hc : live s.tree curObj = true) (hinfo : InfoOK info)
     (hb : Bud d 2 s) (hnbl : argType ≠ argTypeByteList)
     (hfl : argType = argTypeFieldList → C13.P s.tree curObj ≠ INV ∧ live s.tree (La s.tree curObj) = true ∧
       ∃ v, (slot s.tree (La s.tree curObj)).value = .u64 v)
-    (hdir : DirOK d ex s) (hexP : ∀ e, ex = some e → e = curObj ∧ (slot s.tree curObj).opcode = opScope)
-    (hcS : (slot s.tree curObj).opcode = opScope → ex = some curObj)
-    (hpar : ParSB s curObj) (hexL : ex ≠ none → Leaf argType ∨ argType = argTypeTermList) :
+    (hdir : Both jf d ex s)
+    (hexP : ∀ e, ex = some e → e = curObj ∧ ((slot s.tree curObj).opcode = opScope ∨ (slot s.tree curObj).opcode = opMethod))
+    (hcS : (slot s.tree curObj).opcode = opScope ∨ (slot s.tree curObj).opcode = opMethod → ex = some curObj)
+    (hpar : ParSB s curObj) (hexL : ex ≠ none → Leaf argType ∨ argType = argTypeTermList)
+    (hcN : (slot s.tree curObj).opcode ≠ opIntNamePathOrMethodCall) :
     NPs (parseArg d (f + 1) info curObj argType) s (fun a s' =>
-      PostF d (TCur s curObj) 2 s s' (a.2 ≠ .failed) (DirOK d ex s') ∧ RetOK s s' a.1 ∧
+      PostF d (TCur s curObj) 2 s s' (a.2 ≠ .failed) (Both jf d ex s') ∧ RetOK s s' a.1 ∧
       (Leaf argType → (∀ x, live s.tree x = true → x ≠ curObj → slot s'.tree x = slot s.tree x) ∧
         Fi s'.tree curObj = Fi s.tree curObj ∧ La s'.tree curObj = La s.tree curObj) ∧
       (argType = argTypeByteData → a.2 = .ok → ∃ x v, a.1 = some x ∧ (slot s'.tree x).value = .u64 v) ∧
       (argType = argTypePkgLen → a.1 = none) ∧ (isSimpleArg argType = true → a.2 = .ok → ∃ x, a.1 = some x) ∧
       (argType = argTypeNameString → a.2 = .ok → ∃ x, a.1 = some x ∧ NameObj d s'.tree x) ∧
-      (argType = argTypeTermList → a.2 ≠ .failed → ∃ x, a.1 = some x ∧ (slot s'.tree x).opcode = opIntScopeBlock) ∧
+      (argType = argTypeTermList → a.2 ≠ .failed → ∃ x, a.1 = some x ∧ (slot s'.tree x).opcode = opIntScopeBlock ∧
+        (slot s'.tree x).infoIndex = pOpcodeTableIndex opIntScopeBlock true) ∧
       (argType = argTypeTermArg ∨ argType = argTypeTermList → a.2 ≠ .ok) ∧
       (Leaf argType ∨ argType = argTypeTermList → (slot s'.tree curObj).infoIndex = (slot s.tree curObj).infoIndex) ∧
       (argType = argTypeTermList → ∀ x, live s.tree x = true → slot s'.tree x = slot s.tree x) ∧
-      (isSimpleArg argType = true → a.2 = .ok ∨ a.2 = .failed)) := by
+      (isSimpleArg argType = true → a.2 = .ok ∨ a.2 = .failed) ∧
+      (argType = argTypeNameString → a.2 = .ok → ∀ x, a.1 = some x → NameObj2 s'.tree x) ∧
+      (argType = argTypeByteData → a.2 = .ok → ∀ x, a.1 = some x → ByteObj s'.tree x) ∧
+      (argType = argTypePkgLen → a.2 = .ok ∨ a.2 = .failed ∨ ∃ fl, opFlags info = some fl ∧ hasFlag fl flagDeferParsing = true)) := by
   have hd' : d.size + 1024 ≤ 4294967296 := by omega
   have h := hS.fp
   have w := h.tree.wf
   have hszlt : s.tree.pool.size < INV := (hb.mono (k' := 1) (by omega)).size_lt
-  have hex : ∀ e, ex = some e → (slot s.tree e).opcode = opScope := fun e he => by
+  have hex : ExK s ex := fun e he => by
     obtain ⟨q1, q2⟩ := hexP e he; rw [q1]; exact q2
-  have hTcur : ∀ y, TCur s curObj y → live s.tree y = true →
-      some y = ex ∨ ((slot s.tree y).opcode ≠ opScope ∧ ((slot s.tree y).opcode ≠ opIntNamePath ∨ ParSB s y)) := by
+  have hTcur : ∀ y, TCur s curObj y → live s.tree y = true → TOK s ex y := by
     intro y hT hl
     rcases hT with hT | hT
     · rw [hT]
-      by_cases hq : (slot s.tree curObj).opcode = opScope
+      by_cases hq : (slot s.tree curObj).opcode = opScope ∨ (slot s.tree curObj).opcode = opMethod
       · exact Or.inl (hcS hq).symm
-      · exact Or.inr ⟨hq, Or.inr hpar⟩
+      · exact Or.inr ⟨⟨fun e => hq (Or.inl e), fun e => hq (Or.inr e)⟩, Or.inl hpar, hcN⟩
     · rcases hpar with hq | hq
       · rw [hT, hq, live_not_INV w] at hl; cases hl
-      · rw [hT]; exact Or.inr ⟨by rw [hq]; decide, Or.inl (by rw [hq]; decide)⟩
+      · rw [hT]; exact Or.inr ⟨⟨by rw [hq]; decide, by rw [hq]; decide⟩, Or.inr hq, by rw [hq]; decide⟩
   unfold parseArg
   by_cases hsimple : isSimpleArg argType = true
   · rw [if_pos hsimple]
     have hnpk : argType ≠ argTypePkgLen := by intro hq; rw [hq] at hsimple; revert hsimple; decide
     have hntl : argType ≠ argTypeTermList := by intro hq; rw [hq] at hsimple; revert hsimple; decide
     have hnta : argType ≠ argTypeTermArg := by intro hq; rw [hq] at hsimple; revert hsimple; decide
-    obtain ⟨a, s', n, e, h', f', _, hres⟩ := parseSimpleArg_tot hd' h hszlt argType
+    obtain ⟨a, s', n, e, h', f', hk', hres⟩ := parseSimpleArg_tot hd' h hszlt argType
+    have hnM' : (slot s'.tree n).opcode ≠ opMethod := fun ho => by rw [ho, isK_method] at hk'; cases hk'
+    have hnC' : (slot s'.tree n).opcode ≠ opIntNamePathOrMethodCall := fun ho => by rw [ho, isK_call] at hk'; cases hk'
     have g' : SGrow (TCur s curObj) 1 s s' := SGrow.ofFresh1 f'
     have hcn : curObj ≠ n := f'.ne hc
     refine NPs.of_eq e ⟨⟨hS.step h' g' (fun x hx => Or.inl (by rw [← f'.scope]; exact hx)), g'.weaken (by omega),
-      by rw [f'.scope]; exact Nat.le_refl _, fun _ => hdir.fresh1 f' w h'.tree.wf hex⟩, ?_,
+      by rw [f'.scope]; exact Nat.le_refl _, fun _ => hdir.fresh1 f' w h'.tree.wf hex (Or.inl hnM') hnC'⟩, ?_,
       fun _ => ⟨fun x hx _ => f'.old x (f'.ne hx), by unfold Fi; rw [f'.old _ hcn], by unfold La; rw [f'.old _ hcn]⟩, ?_,
       fun hq => absurd hq hnpk, ?_, ?_, fun hq => absurd hq hntl, ?_, fun _ => by rw [f'.old _ hcn],
-      fun hq => absurd hq hntl, ?_⟩
+      fun hq => absurd hq hntl, ?_, ?_, ?_, fun hq => absurd hq hnpk⟩
     · intro x hx
       rcases hres with ⟨ha, _, _⟩ | ha
       · rw [ha] at hx; cases hx
@@ -582,7 +961,8 @@ theorem arg_stepF {d : Bytes} (hd : d.size + 268435456 ≤ 4294967296) {f : Nat}
       obtain ⟨a2, s2, e2, hname⟩ := parseSimpleArg_name hd' h hszlt
       rw [e] at e2
       cases e2
-      exact hname hok
+      obtain ⟨x, hx, hn, _⟩ := hname hok
+      exact ⟨x, hx, hn⟩
     · intro hq
       rcases hq with hq | hq
       · exact absurd hq hnta
@@ -593,24 +973,39 @@ theorem arg_stepF {d : Bytes} (hd : d.size + 268435456 ≤ 4294967296) {f : Nat}
         · exact Or.inl e0
         · exact Or.inr e0
       · rw [ha]; exact Or.inr rfl
+    · intro hns hok x hx
+      subst hns
+      obtain ⟨a2, s2, e2, hname⟩ := parseSimpleArg_name hd' h hszlt
+      rw [e] at e2
+      cases e2
+      obtain ⟨y, hy, hn, hi⟩ := hname hok
+      rw [hx] at hy; cases hy
+      exact ⟨hn.1, hn.2.1, hi⟩
+    · intro hbd _ x hx
+      subst hbd
+      obtain ⟨a2, s2, e2, hbyte⟩ := parseSimpleArg_byte h hszlt
+      rw [e] at e2
+      cases e2
+      exact hbyte x hx
   · rw [if_neg hsimple, if_neg hnbl]
     have hnns : argType ≠ argTypeNameString := by intro hq; rw [hq] at hsimple; exact hsimple (by decide)
     have hnbd : argType ≠ argTypeByteData := by intro hq; rw [hq] at hsimple; exact hsimple (by decide)
     by_cases hpk : argType = argTypePkgLen
     · rw [if_pos hpk]
-      obtain ⟨a, s', e, h', ha, hsc', sm, hpm, htm, _, hoff, hsame', hinfm⟩ := parsePkgLenArg_skip hd h info curObj hc hinfo
+      obtain ⟨a, s', e, h', ha, hsc', ⟨sm, hpm, htm, _, hoff, hsame', hinfm⟩, hkind⟩ := parsePkgLenArg_skip hd h info curObj hc hinfo
       have g' : SGrow (TCur s curObj) 0 s s' := sgrow_ofPayLex hpm htm hoff hsame' (by
         rcases hpar with hq | _
         · exact Or.inl hq
         · exact Or.inr (Or.inr rfl)) (Or.inl rfl) hc
-      have hdir' : DirOK d ex s' := hdir.grow g' w h'.tree.wf hTcur hex (fun x h1 h2 _ => by
+      have hdir' : Both jf d ex s' := hdir.grow g' w h'.tree.wf hTcur hex (fun x h1 h2 => by
         rw [htm, hpm.links.live, h1] at h2; cases h2)
       refine NPs.of_eq e ⟨⟨hS.step h' g' (fun x hx => Or.inl (by rw [← hsc']; exact hx)), g'.weaken (by omega),
         by rw [hsc']; exact Nat.le_refl _, fun _ => hdir'⟩, fun x hx => (by rw [ha] at hx; cases hx),
         fun _ => ⟨fun x _ hne => (by rw [htm]; exact hpm.others x hne), by rw [htm]; exact hpm.links.fi _, by rw [htm]; exact hpm.links.la _⟩,
         fun hq => absurd hq hnbd, fun _ => ha, fun hq => absurd hq hsimple, fun hq => absurd hq hnns,
         fun hq => (by rw [hpk] at hq; cases hq), ?_, fun _ => by rw [htm]; exact hinfm,
-        fun hq => (by rw [hpk] at hq; cases hq), fun hq => absurd hq hsimple⟩
+        fun hq => (by rw [hpk] at hq; cases hq), fun hq => absurd hq hsimple, fun hq => absurd hq hnns,
+        fun hq => absurd hq hnbd, fun _ => hkind⟩
       intro hq; rcases hq with hq | hq <;> rw [hpk] at hq <;> cases hq
     · rw [if_neg hpk]
       have hnl : ¬ Leaf argType := by
@@ -623,13 +1018,15 @@ theorem arg_stepF {d : Bytes} (hd : d.size + 268435456 ≤ 4294967296) {f : Nat}
         obtain ⟨res, s', e, h', g', hsc', _, fr⟩ := parseFieldElements_tot (T := TCur s curObj) hd h curObj hc hp hla hv hb
           (Or.inl rfl) (Or.inr rfl)
         have gg : SGrow (TCur s curObj) 2 s s' := SGrow.ofGrowFrm g' fr
-        have hdir' : DirOK d ex s' := hdir.grow gg w h'.tree.wf hTcur hex (fun x h1 h2 ho => by
+        have hdir' : Both jf d ex s' := hdir.grow gg w h'.tree.wf hTcur hex (fun x h1 h2 => by
           have := fr.newK x h1 h2
-          rw [ho, isK_scope] at this; cases this)
+          exact ⟨fun ho => (by rw [ho, isK_scope] at this; cases this), fun ho => (by rw [ho, isK_method] at this; cases this),
+            fun ho => (by rw [ho, isK_call] at this; cases this)⟩)
         refine NPs.step e (NPs.pure ⟨⟨hS.step h' gg (fun x hx => Or.inl (by rw [← hsc']; exact hx)), gg,
           by rw [hsc']; exact Nat.le_refl _, fun _ => hdir'⟩, fun x hx => (by cases hx), fun hl => absurd hl hnl,
           fun hq => absurd hq hnbd, fun hq => absurd hq hpk, fun hq => absurd hq hsimple, fun hq => absurd hq hnns,
-          fun hq => (by rw [hfld] at hq; cases hq), ?_, ?_, fun hq => (by rw [hfld] at hq; cases hq), fun hq => absurd hq hsimple⟩)
+          fun hq => (by rw [hfld] at hq; cases hq), ?_, ?_, fun hq => (by rw [hfld] at hq; cases hq), fun hq => absurd hq hsimple,
+          fun hq => absurd hq hnns, fun hq => absurd hq hnbd, fun hq => absurd hq hpk⟩)
         · intro hq; rcases hq with hq | hq <;> rw [hfld] at hq <;> cases hq
         · intro hq
           rcases hq with hq | hq
@@ -643,7 +1040,8 @@ theorem arg_stepF {d : Bytes} (hd : d.size + 268435456 ≤ 4294967296) {f : Nat}
           simp only [Bool.false_eq_true, ↓reduceIte]
           refine NPs.pure ⟨⟨hS, (SGrow.refl s).weaken (by omega), Nat.le_refl _, fun _ => hdir⟩, fun x hx => (by cases hx),
             fun hl => absurd hl hnl, fun hq => absurd hq hnbd, fun hq => absurd hq hpk, fun hq => absurd hq hsimple,
-            fun hq => absurd hq hnns, ?_, fun _ hq => (by cases hq), ?_, ?_, fun hq => absurd hq hsimple⟩
+            fun hq => absurd hq hnns, ?_, fun _ hq => (by cases hq), ?_, ?_, fun hq => absurd hq hsimple,
+            fun hq => absurd hq hnns, fun hq => absurd hq hnbd, fun hq => absurd hq hpk⟩
           · intro hq; rcases hta with hq2 | hq2 <;> rw [hq2] at hq <;> cases hq
           · intro hq
             rcases hq with hq | hq
@@ -666,7 +1064,11 @@ theorem arg_stepF {d : Bytes} (hd : d.size + 268435456 ≤ 4294967296) {f : Nat}
             have gm : SGrow (TCur s curObj) 1 s sm := SGrow.ofFresh1 fm
             have g1 : SGrow (TCur s curObj) 1 s s1 :=
               gm.trans (SGrow.ofSame ht1 (by rw [hr1, hrm]; exact Nat.le_refl _) (by rw [hs1]; exact ⟨rfl, rfl, rfl⟩))
-            have hdirm : DirOK d ex sm := hdir.fresh1 fm w hm.tree.wf hex
+            have hdirm : Both jf d ex sm := hdir.fresh1 fm w hm.tree.wf hex (Or.inl (by rw [hopm]; exact mth_ops.2.2.1))
+              (by rw [hopm]; decide)
+            have hinf1 : (slot s1.tree scope).infoIndex = pOpcodeTableIndex opIntScopeBlock true := by
+              obtain ⟨a2, s2, e2, hi2⟩ := newScopeBlock_info h hszlt
+              rw [e1] at e2; cases e2; exact hi2
             have hop1 : (slot s1.tree scope).opcode = opIntScopeBlock := by rw [ht1]; exact hopm
             refine NPs.pure ⟨⟨hS.step h1 g1 (fun x hx => by
                 rw [hsc1, Array.toList_push, List.mem_append, List.mem_singleton] at hx
@@ -675,9 +1077,9 @@ theorem arg_stepF {d : Bytes} (hd : d.size + 268435456 ≤ 4294967296) {f : Nat}
                 · rw [hx]; exact Or.inr hop1), g1.weaken (by omega), by rw [hsc1]; simp,
               fun _ => hdirm.ofTree ht1 (by rw [hsame1.2.1, fm.same.2.1])⟩, ?_, fun hl => absurd hl hnl,
               fun hq => absurd hq hnbd, fun hq => absurd hq hpk, fun hq => absurd hq hsimple, fun hq => absurd hq hnns,
-              fun _ _ => ⟨scope, rfl, hop1⟩, fun _ hq => (by cases hq),
+              fun _ _ => ⟨scope, rfl, hop1, hinf1⟩, fun _ hq => (by cases hq),
               fun _ => by rw [ht1, fm.old _ (fm.ne hc)], fun _ x hx => by rw [ht1, fm.old _ (fm.ne hx)],
-              fun hq => absurd hq hsimple⟩
+              fun hq => absurd hq hsimple, fun hq => absurd hq hnns, fun hq => absurd hq hnbd, fun hq => absurd hq hpk⟩
             intro a ha
             cases ha
             exact ⟨fm.nlive, by rw [ht1]; exact fm.liven, by rw [ht1]; exact fm.pn⟩
@@ -693,7 +1095,8 @@ theorem arg_stepF {d : Bytes} (hd : d.size + 268435456 ≤ 4294967296) {f : Nat}
             intro a s' ⟨⟨hS', g', hsz', hok'⟩, hret⟩
             refine ⟨⟨hS', (g'.mono w (fun x _ hT => False.elim hT)).weaken (by omega), hsz', hok'⟩, hret,
               fun hl => absurd hl hnl, fun hq => absurd hq hnbd, fun hq => absurd hq hpk, fun hq => absurd hq hsimple,
-              fun hq => absurd hq hnns, fun hq => absurd hq htl, ?_, ?_, fun hq => absurd hq htl, fun hq => absurd hq hsimple⟩
+              fun hq => absurd hq hnns, fun hq => absurd hq htl, ?_, ?_, fun hq => absurd hq htl, fun hq => absurd hq hsimple,
+              fun hq => absurd hq hnns, fun hq => absurd hq hnbd, fun hq => absurd hq hpk⟩
             · intro hq
               rcases hq with hq | hq
               · exact absurd (Or.inl hq) hta
@@ -741,8 +1144,9 @@ theorem DirOK.closeBlank {d : Bytes} {s : PState} {c : Nat} (h : DirOK d (some c
 theorem DirOK.append {d : Bytes} {ex : Option Nat} {s1 s2 : PState} (h : DirOK d ex s1) (w1 : WF s1.tree) (w2 : WF s2.tree)
     {obj arg : Nat} (hs2 : s2 = { s1 with tree := s2.tree })
     (ha : C13.P s1.tree arg = INV) (ho : live s1.tree obj = true)
-    (hobj : (some obj = ex ∧ (slot s1.tree obj).opcode = opScope) ∨
-      ((slot s1.tree obj).opcode ≠ opScope ∧ ((slot s1.tree obj).opcode ≠ opIntNamePath ∨ ParSB s1 obj)))
+    (hobj : (some obj = ex ∧ ((slot s1.tree obj).opcode = opScope ∨ (slot s1.tree obj).opcode = opMethod)) ∨
+      (((slot s1.tree obj).opcode ≠ opScope ∧ (slot s1.tree obj).opcode ≠ opMethod) ∧
+        (ParSB s1 obj ∨ (slot s1.tree obj).opcode = opIntScopeBlock)))
     (hl : ∀ x, live s2.tree x = live s1.tree x) (sp : SamePay s1.tree s2.tree)
     (hP : ∀ x, C13.P s2.tree x = if x = arg then obj else C13.P s1.tree x)
     (hNx : ∀ x, Nx s2.tree x = if x = arg then INV else if x = La s1.tree obj ∧ La s1.tree obj ≠ INV then arg else Nx s1.tree x)
@@ -756,7 +1160,7 @@ theorem DirOK.append {d : Bytes} {ex : Option Nat} {s1 s2 : PState} (h : DirOK d
     intro e
     rcases hobj with h0 | h0
     · exact hne (by rw [e]; exact h0.1)
-    · exact h0.1 (by rw [← e]; exact hop1)
+    · exact h0.1.1 (by rw [← e]; exact hop1)
   have hfi : Fi s2.tree x = Fi s1.tree x := by rw [hFi, if_neg (fun hc => hxo hc.1)]
   rcases h x hx1 hop1 hh1 hne with h1 | h1
   · exact Or.inl (by rw [hfi]; exact h1)
@@ -781,10 +1185,11 @@ theorem DirOK.append {d : Bytes} {ex : Option Nat} {s1 s2 : PState} (h : DirOK d
       · have := h0.2
         rw [← e, h1.nameOp] at this
         revert this; decide
-      · rcases h0.2 with h3 | h3 | h3
-        · exact h3 (by rw [← e]; exact h1.nameOp)
+      · rcases h0.2 with (h3 | h3) | h3
         · rw [← e, p1] at h3; exact hxINV h3
         · rw [← e, p1, hop1] at h3
+          revert h3; decide
+        · rw [← e, h1.nameOp] at h3
           revert h3; decide
     have nxk : ∀ y, C13.P s1.tree y = x → Nx s2.tree y = Nx s1.tree y := by
       intro y hpy
@@ -799,14 +1204,49 @@ theorem DirOK.append {d : Bytes} {ex : Option Nat} {s1 s2 : PState} (h : DirOK d
     refine ⟨by rw [hP, if_neg hxa]; exact h1.att, by rw [hfi]; exact h1.fi, ?_, by rw [hfi, pay_opcode (sp.pay _)]; exact h1.nameOp⟩
     exact h1.shape.transfer (sp.pay _) hfi hla' (sp.pay _) (by rw [hFi, if_neg (fun hc => hfo hc.1)]) (nxk _ p1) (sp.pay _)
 
+theorem Both.append {d : Bytes} {ex : Option Nat} {s1 s2 : PState} (h : Both jf d ex s1) (w1 : WF s1.tree) (w2 : WF s2.tree)
+    {obj arg : Nat} (hs2 : s2 = { s1 with tree := s2.tree })
+    (ha : C13.P s1.tree arg = INV) (ho : live s1.tree obj = true)
+    (hobj : (some obj = ex ∧ ((slot s1.tree obj).opcode = opScope ∨ (slot s1.tree obj).opcode = opMethod)) ∨
+      (((slot s1.tree obj).opcode ≠ opScope ∧ (slot s1.tree obj).opcode ≠ opMethod) ∧
+        (ParSB s1 obj ∨ (slot s1.tree obj).opcode = opIntScopeBlock)))
+    (hl : ∀ x, live s2.tree x = live s1.tree x) (sp : SamePay s1.tree s2.tree)
+    (hP : ∀ x, C13.P s2.tree x = if x = arg then obj else C13.P s1.tree x)
+    (hNx : ∀ x, Nx s2.tree x = if x = arg then INV else if x = La s1.tree obj ∧ La s1.tree obj ≠ INV then arg else Nx s1.tree x)
+    (hFi : ∀ x, Fi s2.tree x = if x = obj ∧ La s1.tree obj = INV then arg else Fi s1.tree x) : Both jf d ex s2 :=
+  ⟨h.dir.append w1 w2 hs2 ha ho hobj hl sp hP hNx hFi, fun hb => (h.mth hb).append w1 ha ho hobj hl sp hP hNx hFi,
+   fun hb => (h.cs hb).append w1 ho hl sp hP⟩
+
+/-- the `Scope` under construction has no arguments -/
+theorem Both.closeBlank {d : Bytes} {s : PState} {c : Nat} (h : Both jf d (some c) s) (ho : (slot s.tree c).opcode = opScope)
+    (hf : Fi s.tree c = INV) : Both jf d none s :=
+  ⟨h.dir.closeBlank hf, fun hb => (h.mth hb).ofSome (by rw [ho]; decide), h.cs⟩
+
+/-- the `Scope` under construction is complete -/
+theorem Both.closeDir {d : Bytes} {s : PState} {c : Nat} (h : Both jf d (some c) s) (ho : (slot s.tree c).opcode = opScope)
+    (hc : DShape d s.tree c) : Both jf d none s :=
+  ⟨h.dir.close hc, fun hb => (h.mth hb).ofSome (by rw [ho]; decide), h.cs⟩
+
+/-- the `Method` under construction is complete -/
+theorem Both.closeMth {d : Bytes} {s : PState} {c : Nat} (h : Both jf d (some c) s) (ho : (slot s.tree c).opcode = opMethod)
+    (hc : MthC s.tree c) : Both jf d none s :=
+  ⟨h.dir.ofSome (by rw [ho]; decide), fun hb => (h.mth hb).close hc, h.cs⟩
+
+set_option maxRecDepth 20000 in
+/-- the row of `Method` is not a deferred one -/
+theorem method_not_deferred : ∀ fl, opFlags methodInfoIdx = some fl → hasFlag fl flagDeferParsing = false := by
+  decide +kernel
+
 /-- `parseArgs(info, curObj, argOffset)` from argument `j` in the first pass -/
-theorem args_stepF {d : Bytes} {f : Nat} (ih : FNP d f) {s : PState}
+theorem args_stepF {d : Bytes} {f : Nat} (ih : FNP jf d f) {s : PState}
     (info curObj j : Nat) (hS : KP d s) (hc : live s.tree curObj = true) (hinfo : InfoOK info) (hrow : rowFacts info = true)
     (hj : j ≤ argCnt info) (hb : Bud d (2 * (7 - j)) s) (hatt : Att s info curObj) (hprev : PrevOK s info curObj j)
-    (hpast : 1 ≤ j → argAt info (j - 1) ≠ argTypeTermArg) (hdx : DIRx d s curObj j)
-    (hcons : (slot s.tree curObj).opcode = opScope → info = scopeInfo) (hpar : ParSB s curObj) :
+    (hpast : 1 ≤ j → argAt info (j - 1) ≠ argTypeTermArg) (hdx : DIRx jf d s curObj j)
+    (hcons : (slot s.tree curObj).opcode = opScope → info = scopeInfo)
+    (hconsM : (slot s.tree curObj).opcode = opMethod → info = methodInfoIdx) (hpar : ParSB s curObj)
+    (hcN : (slot s.tree curObj).opcode ≠ opIntNamePathOrMethodCall) :
     NPs (parseArgs d (f + 1) info curObj j) s (fun res s' =>
-      PostF d (TCur s curObj) (2 * (7 - j)) s s' (res ≠ .failed) (DirOK d none s')) := by
+      PostF d (TCur s curObj) (2 * (7 - j)) s s' (res ≠ .failed) (Both jf d none s')) := by
   have h := hS.fp
   have w := h.tree.wf
   unfold parseArgs
@@ -814,6 +1254,11 @@ theorem args_stepF {d : Bytes} {f : Nat} (ih : FNP d f) {s : PState}
   refine NPs.step (optP_ex _ s) ?_
   have hcnt := rowFacts_cnt hrow
   obtain ⟨r3, r0, r1, r2⟩ := scope_row
+  obtain ⟨m4, m0, m1, m2, m3⟩ : argCnt methodInfoIdx = 4 ∧ argAt methodInfoIdx 0 = argTypePkgLen ∧
+      argAt methodInfoIdx 1 = argTypeNameString ∧ argAt methodInfoIdx 2 = argTypeByteData ∧
+      argAt methodInfoIdx 3 = argTypeTermList := method_row
+  have hSM : ¬ ((slot s.tree curObj).opcode = opScope ∧ (slot s.tree curObj).opcode = opMethod) := by
+    intro hq; rw [hq.1] at hq; exact absurd hq.2 (by decide)
   by_cases hlt : j < argCnt info
   · rw [if_pos hlt, opArg_of_info hinfo j]
     refine NPs.step (optP_ex _ s) ?_
@@ -831,21 +1276,26 @@ theorem args_stepF {d : Bytes} {f : Nat} (ih : FNP d f) {s : PState}
       rcases hatt with hp | hno
       · exact hp
       · exact absurd hq (noFL_at hno hj8)
-    -- the exception of the directive invariant while the arguments of a `Scope` are read
-    obtain ⟨ex, hexd⟩ : ∃ ex : Option Nat, ex = if (slot s.tree curObj).opcode = opScope then some curObj else none := ⟨_, rfl⟩
-    have hexS : (slot s.tree curObj).opcode = opScope → ex = some curObj := fun hq => by rw [hexd, if_pos hq]
-    have hexN : (slot s.tree curObj).opcode ≠ opScope → ex = none := fun hq => by rw [hexd, if_neg hq]
+    -- the exception of the invariant while the arguments of a `Scope` or a `Method` are read
+    obtain ⟨ex, hexd⟩ : ∃ ex : Option Nat, ex = if (slot s.tree curObj).opcode = opScope ∨ (slot s.tree curObj).opcode = opMethod
+        then some curObj else none := ⟨_, rfl⟩
+    have hexS : (slot s.tree curObj).opcode = opScope ∨ (slot s.tree curObj).opcode = opMethod → ex = some curObj :=
+      fun hq => by rw [hexd, if_pos hq]
+    have hexN : ¬ ((slot s.tree curObj).opcode = opScope ∨ (slot s.tree curObj).opcode = opMethod) → ex = none :=
+      fun hq => by rw [hexd, if_neg hq]
     have hj3 : (slot s.tree curObj).opcode = opScope → j < 3 := fun hq => by rw [hcons hq, r3] at hlt; exact hlt
-    have hmsex : DirOK d ex s := by
-      by_cases hq : (slot s.tree curObj).opcode = opScope
+    have hj4 : (slot s.tree curObj).opcode = opMethod → j < 4 := fun hq => by rw [hconsM hq, m4] at hlt; exact hlt
+    have hmsex : Both jf d ex s := by
+      by_cases hq : (slot s.tree curObj).opcode = opScope ∨ (slot s.tree curObj).opcode = opMethod
       · rw [hexS hq]; exact hdx.toSome
       · rw [hexN hq]
         unfold DIRx at hdx
-        rw [if_neg hq] at hdx
+        rw [if_neg (fun e => hq (Or.inl e)), if_neg (fun e => hq (Or.inr e))] at hdx
         exact hdx
-    have hexP : ∀ e, ex = some e → e = curObj ∧ (slot s.tree curObj).opcode = opScope := by
+    have hexP : ∀ e, ex = some e → e = curObj ∧
+        ((slot s.tree curObj).opcode = opScope ∨ (slot s.tree curObj).opcode = opMethod) := by
       intro e he
-      by_cases hq : (slot s.tree curObj).opcode = opScope
+      by_cases hq : (slot s.tree curObj).opcode = opScope ∨ (slot s.tree curObj).opcode = opMethod
       · rw [hexS hq] at he; cases he; exact ⟨rfl, hq⟩
       · rw [hexN hq] at he; cases he
     have hexL : ex ≠ none → Leaf (argAt info j) ∨ argAt info j = argTypeTermList := by
@@ -859,19 +1309,29 @@ theorem args_stepF {d : Bytes} {f : Nat} (ih : FNP d f) {s : PState}
         · exact Or.inl (Or.inr r0)
         · exact Or.inl (Or.inl (by rw [r1]; decide))
         · exact Or.inr r2
-      · exact absurd (hexN hq) hne
-    have := ih.arg info curObj (argAt info j) ex hS hc hinfo (hb.mono (by omega)) hnbl hfl hmsex hexP hexS hpar hexL
+      · by_cases hqm : (slot s.tree curObj).opcode = opMethod
+        · have hi := hconsM hqm
+          have h4 := hj4 hqm
+          rw [hi]
+          have : j = 0 ∨ j = 1 ∨ j = 2 ∨ j = 3 := by omega
+          rcases this with e | e | e | e <;> subst e
+          · exact Or.inl (Or.inr m0)
+          · exact Or.inl (Or.inl (by rw [m1]; decide))
+          · exact Or.inl (Or.inl (by rw [m2]; decide))
+          · exact Or.inr m3
+        · exact absurd (hexN (fun e => e.elim hq hqm)) hne
+    have := ih.arg info curObj (argAt info j) ex hS hc hinfo (hb.mono (by omega)) hnbl hfl hmsex hexP hexS hpar hexL hcN
     refine NPs.bind this ?_
-    intro ⟨a1, a2⟩ s1 ⟨⟨hS1, g1, hsz1, hok1⟩, hret, hleaf, hbd, hpkn, hsim, hns, htl, hstop, hinfK, hslT, hsof⟩
-    dsimp only at hok1 hret hbd hpkn hsim hns htl hstop hsof ⊢
+    intro ⟨a1, a2⟩ s1 ⟨⟨hS1, g1, hsz1, hok1⟩, hret, hleaf, hbd, hpkn, hsim, hns, htl, hstop, hinfK, hslT, hsof, hns2, hbo, hpkk⟩
+    dsimp only at hok1 hret hbd hpkn hsim hns htl hstop hsof hns2 hbo hpkk ⊢
     have h1 := hS1.fp
     have hc1 : live s1.tree curObj = true := g1.oldLive _ hc
     -- the rest of the loop from a state `s2` in which the returned object is the last argument of `curObj`
     have cont : ∀ s2 : PState, KP d s2 → SGrow (TCur s curObj) 2 s s2 → s.scopeStack.size ≤ s2.scopeStack.size →
-        (a2 ≠ .failed → a2 ≠ .ok → DirOK d none s2) →
-        (a2 = .ok → DIRx d s2 curObj (j + 1) ∧ PrevOK s2 info curObj (j + 1)) →
+        (a2 ≠ .failed → a2 ≠ .ok → Both jf d none s2) →
+        (a2 = .ok → DIRx jf d s2 curObj (j + 1) ∧ PrevOK s2 info curObj (j + 1)) →
         NPs (if a2 = .ok then parseArgs d f info curObj (j + 1) else pure a2) s2 (fun res s' =>
-          PostF d (TCur s curObj) (2 * (7 - j)) s s' (res ≠ .failed) (DirOK d none s')) := by
+          PostF d (TCur s curObj) (2 * (7 - j)) s s' (res ≠ .failed) (Both jf d none s')) := by
       intro s2 hS2 g2 hsz2 hgu hnext
       have h2 := hS2.fp
       by_cases hok : a2 = .ok
@@ -884,12 +1344,14 @@ theorem args_stepF {d : Bytes} {f : Nat} (ih : FNP d f) {s : PState}
         have hP2 : C13.P s2.tree curObj = C13.P s.tree curObj := g2.oldP _ hc
         have hatt2 : Att s2 info curObj := by unfold Att at hatt ⊢; rw [hP2]; exact hatt
         have hcons2 : (slot s2.tree curObj).opcode = opScope → info = scopeInfo := fun hq => hcons ((g2.kfr.sK _ hc).1 hq)
+        have hconsM2 : (slot s2.tree curObj).opcode = opMethod → info = methodInfoIdx := fun hq => hconsM ((g2.kfr.mK _ hc).1 hq)
         have hpar2 : ParSB s2 curObj := hpar.grow g2 w hc
         have hpast2 : 1 ≤ j + 1 → argAt info (j + 1 - 1) ≠ argTypeTermArg := by
           intro _ hq
           have hq' : argAt info j = argTypeTermArg := hq
           exact hstop (Or.inl hq') hok
-        have := ih.args info curObj (j + 1) hS2 hc2 hinfo hrow (by omega) hb2 hatt2 hprev2 hpast2 hdx2 hcons2 hpar2
+        have hcN2 : (slot s2.tree curObj).opcode ≠ opIntNamePathOrMethodCall := fun e => hcN ((kfr_cK g2.kfr _ hc).1 e)
+        have := ih.args info curObj (j + 1) hS2 hc2 hinfo hrow (by omega) hb2 hatt2 hprev2 hpast2 hdx2 hcons2 hconsM2 hpar2 hcN2
         refine this.mono ?_
         intro res s3 ⟨hS3, g3, hsz3, hok3⟩
         have g3' : SGrow (TCur s curObj) (2 * (7 - (j + 1))) s2 s3 := by
@@ -905,10 +1367,10 @@ theorem args_stepF {d : Bytes} {f : Nat} (ih : FNP d f) {s : PState}
     cases a1 with
     | none =>
       refine cont s1 hS1 g1 hsz1 ?_ ?_
-      · intro hnf _
+      · intro hnf hnok
         have hdir1 := hok1 hnf
         by_cases hq : (slot s.tree curObj).opcode = opScope
-        · rw [hexS hq] at hdir1
+        · rw [hexS (Or.inl hq)] at hdir1
           have h3 := hj3 hq
           have hi := hcons hq
           have hj01 : j ≤ 1 := by
@@ -928,8 +1390,30 @@ theorem args_stepF {d : Bytes} {f : Nat} (ih : FNP d f) {s : PState}
           unfold DIRx at hdx
           rw [if_pos hq] at hdx
           obtain ⟨_, f0, _⟩ := hdx.2.2.2.1 hj01
-          exact hdir1.closeBlank (by rw [(hleaf hlf).2.1]; exact f0)
-        · rw [hexN hq] at hdir1; exact hdir1
+          exact hdir1.closeBlank ((g1.kfr.sK _ hc).2 hq) (by rw [(hleaf hlf).2.1]; exact f0)
+        · by_cases hqm : (slot s.tree curObj).opcode = opMethod
+          · -- no object was returned: the package length of a `Method`, which is not deferred
+            exfalso
+            have h4 := hj4 hqm
+            have hi := hconsM hqm
+            have hj0 : j = 0 := by
+              have : j = 0 ∨ j = 1 ∨ j = 2 ∨ j = 3 := by omega
+              rcases this with e | e | e | e
+              · exact e
+              · rcases hsof (by rw [e, hi, m1]; decide) with h0 | h0
+                · exact absurd h0 hnok
+                · exact absurd h0 hnf
+              · rcases hsof (by rw [e, hi, m2]; decide) with h0 | h0
+                · exact absurd h0 hnok
+                · exact absurd h0 hnf
+              · obtain ⟨x, hx, _⟩ := htl (by rw [e, hi]; exact m3) hnf
+                cases hx
+            rcases hpkk (by rw [hj0, hi]; exact m0) with h0 | h0 | ⟨fl, hfl0, hdf⟩
+            · exact hnok h0
+            · exact hnf h0
+            · rw [hi] at hfl0
+              rw [method_not_deferred fl hfl0] at hdf; cases hdf
+          · rw [hexN (fun e => e.elim hq hqm)] at hdir1; exact hdir1
       · intro hok
         have hdir1 := hok1 (by rw [hok]; decide)
         constructor
@@ -937,7 +1421,7 @@ theorem args_stepF {d : Bytes} {f : Nat} (ih : FNP d f) {s : PState}
           split
           · rename_i ho1
             have hq : (slot s.tree curObj).opcode = opScope := (g1.kfr.sK _ hc).1 ho1
-            rw [hexS hq] at hdir1
+            rw [hexS (Or.inl hq)] at hdir1
             have h3 := hj3 hq
             have hi := hcons hq
             have hj0 : j = 0 := by
@@ -961,7 +1445,37 @@ theorem args_stepF {d : Bytes} {f : Nat} (ih : FNP d f) {s : PState}
               exact ⟨hdir1, by rw [(hleaf hlf).2.1]; exact f0, by rw [(hleaf hlf).2.2]; exact l0⟩
           · rename_i ho1
             have hq : (slot s.tree curObj).opcode ≠ opScope := fun hq => ho1 ((g1.kfr.sK _ hc).2 hq)
-            rw [hexN hq] at hdir1; exact hdir1
+            split
+            · rename_i hm1
+              have hqm : (slot s.tree curObj).opcode = opMethod := (g1.kfr.mK _ hc).1 hm1
+              rw [hexS (Or.inr hqm)] at hdir1
+              have h4 := hj4 hqm
+              have hi := hconsM hqm
+              have hj0 : j = 0 := by
+                have : j = 0 ∨ j = 1 ∨ j = 2 ∨ j = 3 := by omega
+                rcases this with e | e | e | e
+                · exact e
+                · exfalso
+                  obtain ⟨x, hx⟩ := hsim (by rw [e, hi, m1]; decide) hok
+                  cases hx
+                · exfalso
+                  obtain ⟨x, hx⟩ := hsim (by rw [e, hi, m2]; decide) hok
+                  cases hx
+                · exfalso
+                  exact hstop (Or.inr (by rw [e, hi]; exact m3)) hok
+              subst hj0
+              have hlf : Leaf (argAt info 0) := by rw [hi]; exact Or.inr m0
+              unfold DIRx at hdx
+              rw [if_neg hq, if_pos hqm] at hdx
+              obtain ⟨p0, i0, c01, _, _, _⟩ := hdx
+              obtain ⟨_, f0, l0⟩ := c01 (by omega)
+              refine ⟨by rw [g1.oldP _ hc]; exact p0, by rw [hinfK (Or.inl hlf)]; exact i0, ?_, fun e => by omega, fun e => by omega,
+                fun e => by omega⟩
+              intro _
+              exact ⟨hdir1, by rw [(hleaf hlf).2.1]; exact f0, by rw [(hleaf hlf).2.2]; exact l0⟩
+            · rename_i hm1
+              have hqm : (slot s.tree curObj).opcode ≠ opMethod := fun hq => hm1 ((g1.kfr.mK _ hc).2 hq)
+              rw [hexN (fun e => e.elim hq hqm)] at hdir1; exact hdir1
         · intro _ hq
           have hq' : argAt info j = argTypeByteData := hq
           obtain ⟨x, _, hx, _⟩ := hbd hq' hok
@@ -976,18 +1490,23 @@ theorem args_stepF {d : Bytes} {f : Nat} (ih : FNP d f) {s : PState}
       have hsc2 : s2.scopeStack = s1.scopeStack := by rw [hs2]
       have hx2 : live s2.tree x = true := by rw [hl2]; exact q2
       have hxc : x ≠ curObj := fun e => by rw [e, hc] at q1; cases q1
-      have hobjX : (some curObj = ex ∧ (slot s1.tree curObj).opcode = opScope) ∨ ((slot s1.tree curObj).opcode ≠ opScope ∧
-          ((slot s1.tree curObj).opcode ≠ opIntNamePath ∨ ParSB s1 curObj)) := by
-        by_cases hq : (slot s.tree curObj).opcode = opScope
-        · exact Or.inl ⟨(hexS hq).symm, (g1.kfr.sK _ hc).2 hq⟩
-        · exact Or.inr ⟨fun ho1 => hq ((g1.kfr.sK _ hc).1 ho1), Or.inr (hpar.grow g1 w hc)⟩
-      have dirA : DirOK d ex s1 → DirOK d ex s2 := fun hd1 =>
+      have hobjX : (some curObj = ex ∧ ((slot s1.tree curObj).opcode = opScope ∨ (slot s1.tree curObj).opcode = opMethod)) ∨
+          (((slot s1.tree curObj).opcode ≠ opScope ∧ (slot s1.tree curObj).opcode ≠ opMethod) ∧
+            (ParSB s1 curObj ∨ (slot s1.tree curObj).opcode = opIntScopeBlock)) := by
+        by_cases hq : (slot s.tree curObj).opcode = opScope ∨ (slot s.tree curObj).opcode = opMethod
+        · refine Or.inl ⟨(hexS hq).symm, ?_⟩
+          rcases hq with hq | hq
+          · exact Or.inl ((g1.kfr.sK _ hc).2 hq)
+          · exact Or.inr ((g1.kfr.mK _ hc).2 hq)
+        · exact Or.inr ⟨⟨fun ho1 => hq (Or.inl ((g1.kfr.sK _ hc).1 ho1)), fun ho1 => hq (Or.inr ((g1.kfr.mK _ hc).1 ho1))⟩,
+            Or.inl (hpar.grow g1 w hc)⟩
+      have dirA : Both jf d ex s1 → Both jf d ex s2 := fun hd1 =>
         hd1.append h1.tree.wf h2.tree.wf hs2 q3 hc1 hobjX hl2 sp2 hP2 hNx2 hFi2
       refine cont s2 hS2 g2 (by rw [hsc2]; exact hsz1) ?_ ?_
       · intro hnf hnok
         have hdir2 := dirA (hok1 hnf)
         by_cases hq : (slot s.tree curObj).opcode = opScope
-        · rw [hexS hq] at hdir2
+        · rw [hexS (Or.inl hq)] at hdir2
           have h3 := hj3 hq
           have hi := hcons hq
           have hj2 : j = 2 := by
@@ -1003,7 +1522,7 @@ theorem args_stepF {d : Bytes} {f : Nat} (ih : FNP d f) {s : PState}
             · exact e
           subst hj2
           have htl2 : argAt info 2 = argTypeTermList := by rw [hi]; exact r2
-          obtain ⟨y, hy, hopy⟩ := htl htl2 hnf
+          obtain ⟨y, hy, hopy, _⟩ := htl htl2 hnf
           cases hy
           have hsl := hslT htl2
           unfold DIRx at hdx
@@ -1028,7 +1547,7 @@ theorem args_stepF {d : Bytes} {f : Nat} (ih : FNP d f) {s : PState}
           have hpc : Pay (slot s2.tree (Fi s.tree curObj)) = Pay (slot s.tree (Fi s.tree curObj)) := by
             rw [sp2.pay, hsl _ lv]
           have hpo : Pay (slot s2.tree curObj) = Pay (slot s.tree curObj) := by rw [sp2.pay, hsl _ hc]
-          apply hdir2.close
+          apply hdir2.closeDir (by rw [pay_opcode hpo]; exact hq)
           refine ⟨by rw [g2.oldP _ hc]; exact p0, by rw [hfi2]; exact hc1INV, ⟨?_, ?_, ?_, ?_, ?_, ?_, ?_⟩, ?_⟩
           · rw [pay_name hpo]; exact n0
           · rw [pay_info hpo]; exact i0
@@ -1038,7 +1557,84 @@ theorem args_stepF {d : Bytes} {f : Nat} (ih : FNP d f) {s : PState}
           · rw [hfi2, pay_opcode hpc, nop]; decide
           · exact ⟨off, len, by rw [hfi2, pay_value hpc]; exact nval, nex⟩
           · rw [hfi2, pay_opcode hpc]; exact nop
-        · rw [hexN hq] at hdir2; exact hdir2
+        · by_cases hqm : (slot s.tree curObj).opcode = opMethod
+          · rw [hexS (Or.inr hqm)] at hdir2
+            have h4 := hj4 hqm
+            have hi := hconsM hqm
+            have hj3' : j = 3 := by
+              have : j = 0 ∨ j = 1 ∨ j = 2 ∨ j = 3 := by omega
+              rcases this with e | e | e | e
+              · exfalso
+                have := hpkn (by rw [e, hi]; exact m0)
+                cases this
+              · exfalso
+                rcases hsof (by rw [e, hi, m1]; decide) with h0 | h0
+                · exact hnok h0
+                · exact hnf h0
+              · exfalso
+                rcases hsof (by rw [e, hi, m2]; decide) with h0 | h0
+                · exact hnok h0
+                · exact hnf h0
+              · exact e
+            subst hj3'
+            have htl3 : argAt info 3 = argTypeTermList := by rw [hi]; exact m3
+            obtain ⟨y, hy, hopy, hinfy⟩ := htl htl3 hnf
+            cases hy
+            have hsl := hslT htl3
+            unfold DIRx at hdx
+            rw [if_neg hq, if_pos hqm] at hdx
+            obtain ⟨p0, i0, _, _, c3, _⟩ := hdx
+            obtain ⟨_, lv1, ⟨no1, nf1, ni1⟩, hn12, lv2, ⟨bo2, bf2, bi2, v, bv2⟩⟩ := c3 rfl
+            -- the name `k1`, the flags `k2`, the block `x`
+            have hk1INV : Fi s.tree curObj ≠ INV := live_ne_INV w.size_le lv1
+            have hk2INV : La s.tree curObj ≠ INV := live_ne_INV w.size_le lv2
+            have hfi1 : Fi s1.tree curObj = Fi s.tree curObj := by unfold Fi; rw [hsl _ hc]
+            have hla1 : La s1.tree curObj = La s.tree curObj := by unfold La; rw [hsl _ hc]
+            have hfi2 : Fi s2.tree curObj = Fi s.tree curObj := by
+              rw [hFi2, if_neg (fun hcq => hk2INV (by rw [← hla1]; exact hcq.2)), hfi1]
+            have hk12 : Fi s.tree curObj ≠ La s.tree curObj := by
+              intro e
+              have := wf_Nx_ne_self w lv1
+              rw [hn12, ← e] at this; exact this rfl
+            have hk1x : Fi s.tree curObj ≠ x := fun e => by rw [← e, lv1] at q1; cases q1
+            have hk2x : La s.tree curObj ≠ x := fun e => by rw [← e, lv2] at q1; cases q1
+            have hnx1 : Nx s2.tree (Fi s.tree curObj) = La s.tree curObj := by
+              rw [hNx2, if_neg hk1x, if_neg (fun hcq => hk12 (by rw [← hla1]; exact hcq.1))]
+              have : Nx s1.tree (Fi s.tree curObj) = Nx s.tree (Fi s.tree curObj) := by
+                show (slot s1.tree _).nextSiblingIndex = (slot s.tree _).nextSiblingIndex
+                rw [hsl _ lv1]
+              rw [this]; exact hn12
+            have hnx2 : Nx s2.tree (La s.tree curObj) = x := by
+              rw [hNx2, if_neg hk2x, if_pos ⟨hla1.symm, by rw [hla1]; exact hk2INV⟩]
+            have hnx3 : Nx s2.tree x = INV := by rw [hNx2, if_pos rfl]
+            have hk1c : Fi s.tree curObj ≠ curObj := fun e =>
+              wf_P_ne_self w lv1 (by rw [((w.lP hc).fi hk1INV).1]; exact e.symm)
+            have hk2c : La s.tree curObj ≠ curObj := fun e =>
+              wf_P_ne_self w lv2 (by rw [((w.lP hc).la hk2INV).1]; exact e.symm)
+            have hf1 : Fi s2.tree (Fi s.tree curObj) = INV := by
+              rw [hFi2, if_neg (fun hcq => hk1c hcq.1)]
+              have : Fi s1.tree (Fi s.tree curObj) = Fi s.tree (Fi s.tree curObj) := by
+                show (slot s1.tree _).firstArgIndex = (slot s.tree _).firstArgIndex
+                rw [hsl _ lv1]
+              rw [this]; exact nf1
+            have hf2 : Fi s2.tree (La s.tree curObj) = INV := by
+              rw [hFi2, if_neg (fun hcq => hk2c hcq.1)]
+              have : Fi s1.tree (La s.tree curObj) = Fi s.tree (La s.tree curObj) := by
+                show (slot s1.tree _).firstArgIndex = (slot s.tree _).firstArgIndex
+                rw [hsl _ lv2]
+              rw [this]; exact bf2
+            have hp1 : Pay (slot s2.tree (Fi s.tree curObj)) = Pay (slot s.tree (Fi s.tree curObj)) := by
+              rw [sp2.pay, hsl _ lv1]
+            have hp2 : Pay (slot s2.tree (La s.tree curObj)) = Pay (slot s.tree (La s.tree curObj)) := by
+              rw [sp2.pay, hsl _ lv2]
+            have hpo : Pay (slot s2.tree curObj) = Pay (slot s.tree curObj) := by rw [sp2.pay, hsl _ hc]
+            apply hdir2.closeMth (by rw [pay_opcode hpo]; exact hqm)
+            exact ⟨Fi s.tree curObj, La s.tree curObj, x, hfi2, hnx1, hnx2, g2.oldLive _ lv1, g2.oldLive _ lv2, hx2,
+              ⟨v, by rw [pay_value hp2]; exact bv2⟩, hf1, hf2, by rw [pay_opcode hp1]; exact no1,
+              by rw [pay_opcode hp2]; exact bo2, by rw [pay_opcode (sp2.pay x)]; exact hopy,
+              by rw [pay_info hp1]; exact ni1, by rw [pay_info hp2]; exact bi2, by rw [pay_info (sp2.pay x)]; exact hinfy,
+              by rw [pay_info hpo]; exact i0, hnx3, by rw [g2.oldP _ hc]; exact p0⟩
+          · rw [hexN (fun e => e.elim hq hqm)] at hdir2; exact hdir2
       · intro hok
         have hdir2 := dirA (hok1 (by rw [hok]; decide))
         constructor
@@ -1046,7 +1642,7 @@ theorem args_stepF {d : Bytes} {f : Nat} (ih : FNP d f) {s : PState}
           split
           · rename_i ho2
             have hq : (slot s.tree curObj).opcode = opScope := (g2.kfr.sK _ hc).1 ho2
-            rw [hexS hq] at hdir2
+            rw [hexS (Or.inl hq)] at hdir2
             have h3 := hj3 hq
             have hi := hcons hq
             have hj1 : j = 1 := by
@@ -1078,7 +1674,73 @@ theorem args_stepF {d : Bytes} {f : Nat} (ih : FNP d f) {s : PState}
               rw [hFi2, if_neg (fun hcq => hxc hcq.1)]; exact nfi
           · rename_i ho2
             have hq : (slot s.tree curObj).opcode ≠ opScope := fun hq => ho2 ((g2.kfr.sK _ hc).2 hq)
-            rw [hexN hq] at hdir2; exact hdir2
+            split
+            · rename_i hm2
+              have hqm : (slot s.tree curObj).opcode = opMethod := (g2.kfr.mK _ hc).1 hm2
+              rw [hexS (Or.inr hqm)] at hdir2
+              have h4 := hj4 hqm
+              have hi := hconsM hqm
+              have hj12 : j = 1 ∨ j = 2 := by
+                have : j = 0 ∨ j = 1 ∨ j = 2 ∨ j = 3 := by omega
+                rcases this with e | e | e | e
+                · exfalso
+                  have := hpkn (by rw [e, hi]; exact m0)
+                  cases this
+                · exact Or.inl e
+                · exact Or.inr e
+                · exfalso
+                  exact hstop (Or.inr (by rw [e, hi]; exact m3)) hok
+              unfold DIRx at hdx
+              rw [if_neg hq, if_pos hqm] at hdx
+              obtain ⟨p0, i0, c01, c2, _, _⟩ := hdx
+              rcases hj12 with e | e <;> subst e
+              · -- the name
+                have hlf : Leaf (argAt info 1) := by rw [hi]; exact Or.inl (by rw [m1]; decide)
+                obtain ⟨_, f0, l0⟩ := c01 (by omega)
+                have hla1 : La s1.tree curObj = INV := by rw [(hleaf hlf).2.2]; exact l0
+                obtain ⟨no1, nf1, ni1⟩ := hns2 (by rw [hi]; exact m1) hok x rfl
+                have hfx : Fi s2.tree curObj = x := by rw [hFi2, if_pos ⟨rfl, hla1⟩]
+                refine ⟨by rw [g2.oldP _ hc]; exact p0, by rw [pay_info (sp2.pay curObj), hinfK (Or.inl hlf)]; exact i0,
+                  fun e => by omega, ?_, fun e => by omega, fun e => by omega⟩
+                intro _
+                refine ⟨hdir2, by rw [hLa2, hfx], by rw [hfx]; exact hx2, ?_⟩
+                rw [hfx]
+                exact ⟨by rw [pay_opcode (sp2.pay x)]; exact no1, by rw [hFi2, if_neg (fun hcq => hxc hcq.1)]; exact nf1,
+                  by rw [pay_info (sp2.pay x)]; exact ni1⟩
+              · -- the flags
+                have hlf : Leaf (argAt info 2) := by rw [hi]; exact Or.inl (by rw [m2]; decide)
+                obtain ⟨_, hLF, lv1, ⟨no1, nf1, ni1⟩⟩ := c2 rfl
+                obtain ⟨hoth, hfiL, hlaL⟩ := hleaf hlf
+                have hk1INV : Fi s.tree curObj ≠ INV := live_ne_INV w.size_le lv1
+                have hk1c : Fi s.tree curObj ≠ curObj := fun e =>
+                  wf_P_ne_self w lv1 (by rw [((w.lP hc).fi hk1INV).1]; exact e.symm)
+                have hk1x : Fi s.tree curObj ≠ x := fun e => by rw [← e, lv1] at q1; cases q1
+                have hla1 : La s1.tree curObj = Fi s.tree curObj := by rw [hlaL, hLF]
+                have hfi2 : Fi s2.tree curObj = Fi s.tree curObj := by
+                  rw [hFi2, if_neg (fun hcq => hk1INV (by rw [← hla1]; exact hcq.2)), hfiL]
+                have hnx1 : Nx s2.tree (Fi s.tree curObj) = x := by
+                  rw [hNx2, if_neg hk1x, if_pos ⟨hla1.symm, by rw [hla1]; exact hk1INV⟩]
+                have hsl1 : slot s1.tree (Fi s.tree curObj) = slot s.tree (Fi s.tree curObj) := hoth _ lv1 hk1c
+                have hp1 : Pay (slot s2.tree (Fi s.tree curObj)) = Pay (slot s.tree (Fi s.tree curObj)) := by
+                  rw [sp2.pay, hsl1]
+                have hf1 : Fi s2.tree (Fi s.tree curObj) = INV := by
+                  rw [hFi2, if_neg (fun hcq => hk1c hcq.1)]
+                  have : Fi s1.tree (Fi s.tree curObj) = Fi s.tree (Fi s.tree curObj) := by
+                    show (slot s1.tree _).firstArgIndex = (slot s.tree _).firstArgIndex
+                    rw [hsl1]
+                  rw [this]; exact nf1
+                obtain ⟨bo2, bf2, bi2, v, bv2⟩ := hbo (by rw [hi]; exact m2) hok x rfl
+                refine ⟨by rw [g2.oldP _ hc]; exact p0, by rw [pay_info (sp2.pay curObj), hinfK (Or.inl hlf)]; exact i0,
+                  fun e => by omega, fun e => by omega, ?_, fun e => by omega⟩
+                intro _
+                rw [hfi2, hLa2]
+                exact ⟨hdir2, g2.oldLive _ lv1, ⟨by rw [pay_opcode hp1]; exact no1, hf1, by rw [pay_info hp1]; exact ni1⟩,
+                  hnx1, hx2, by rw [pay_opcode (sp2.pay x)]; exact bo2,
+                  by rw [hFi2, if_neg (fun hcq => hxc hcq.1)]; exact bf2, by rw [pay_info (sp2.pay x)]; exact bi2,
+                  v, by rw [pay_value (sp2.pay x)]; exact bv2⟩
+            · rename_i hm2
+              have hqm : (slot s.tree curObj).opcode ≠ opMethod := fun hq => hm2 ((g2.kfr.mK _ hc).2 hq)
+              rw [hexN (fun e => e.elim hq hqm)] at hdir2; exact hdir2
         · intro _ hq
           have hq' : argAt info j = argTypeByteData := hq
           obtain ⟨y, v, hy, hv⟩ := hbd hq' hok
@@ -1094,15 +1756,20 @@ theorem args_stepF {d : Bytes} {f : Nat} (ih : FNP d f) {s : PState}
       apply hdx.2.2.2.2.2
       rw [hje, hcons hq, r3]
       omega
-    · exact hdx
+    · split at hdx
+      · rename_i hqm
+        apply hdx.2.2.2.2.2
+        rw [hje, hconsM hqm, m4]
+        omega
+      · exact hdx
 
 /-- `parseObjectArgs(curObj)` in the first pass -/
-theorem objArgs_stepF {d : Bytes} {f : Nat} (ih : FNP d f) {s : PState} (curObj : Nat) (hS : KP d s)
+theorem objArgs_stepF {d : Bytes} {f : Nat} (ih : FNP jf d f) {s : PState} (curObj : Nat) (hS : KP d s)
     (hc : live s.tree curObj = true) (hrow : rowFacts (slot s.tree curObj).infoIndex = true)
     (hatt : Att s (slot s.tree curObj).infoIndex curObj) (hb : Bud d 14 s)
-    (hdx : DIRx d s curObj 0) (hpar : ParSB s curObj) :
+    (hdx : DIRx jf d s curObj 0) (hpar : ParSB s curObj) (hcN : (slot s.tree curObj).opcode ≠ opIntNamePathOrMethodCall) :
     NPs (parseObjectArgs d (f + 1) curObj) s (fun res s' =>
-      PostF d (TCur s curObj) 14 s s' (res ≠ .failed) (DirOK d none s')) := by
+      PostF d (TCur s curObj) 14 s s' (res ≠ .failed) (Both jf d none s')) := by
   have h := hS.fp
   have w := h.tree.wf
   have hcons : (slot s.tree curObj).opcode = opScope → (slot s.tree curObj).infoIndex = scopeInfo := by
@@ -1110,47 +1777,53 @@ theorem objArgs_stepF {d : Bytes} {f : Nat} (ih : FNP d f) {s : PState} (curObj 
     unfold DIRx at hdx
     rw [if_pos hq] at hdx
     exact hdx.2.2.1
+  have hconsM : (slot s.tree curObj).opcode = opMethod → (slot s.tree curObj).infoIndex = methodInfoIdx := by
+    intro hq
+    unfold DIRx at hdx
+    rw [if_neg (by rw [hq]; decide), if_pos hq] at hdx
+    exact hdx.2.1
   unfold parseObjectArgs
   refine NPs.step (getObj_live hc) ?_
   -- a constant: only the value of `curObj` changes
-  have pay : ∀ {res : PRes} {s' : PState}, (slot s.tree curObj).opcode ≠ opScope → FP d s' → PayOnly curObj s s' →
-      PostF d (TCur s curObj) 14 s s' ((if res = PRes.shortCircuit then PRes.ok else res) ≠ .failed) (DirOK d none s') := by
+  have pay : ∀ {res : PRes} {s' : PState}, ((slot s.tree curObj).opcode ≠ opScope ∧ (slot s.tree curObj).opcode ≠ opMethod) →
+      FP d s' → PayOnly curObj s s' →
+      PostF d (TCur s curObj) 14 s s' ((if res = PRes.shortCircuit then PRes.ok else res) ≠ .failed) (Both jf d none s') := by
     intro res s' hnm h' hp
     have g : SGrow (TCur s curObj) 0 s s' := SGrow.ofPay hp (by
       rcases hpar with hq | _
       · exact Or.inl hq
       · exact Or.inr (Or.inr rfl)) (Or.inl rfl) hc
-    have hdir : DirOK d none s := by
+    have hdir : Both jf d none s := by
       unfold DIRx at hdx
-      rw [if_neg hnm] at hdx
+      rw [if_neg hnm.1, if_neg hnm.2] at hdx
       exact hdx
     exact ⟨hS.step h' g (fun x hx => Or.inl (by rw [← hp.scope]; exact hx)), g.weaken (by omega),
       by rw [hp.scope]; exact Nat.le_refl _,
-      fun _ => hdir.pay1 hp w h'.tree.wf hc (Or.inr ⟨hnm, Or.inr hpar⟩) hpar (fun _ hq => by cases hq)⟩
-  have num : ∀ n, (slot s.tree curObj).opcode ≠ opScope →
+      fun _ => hdir.pay1 hp w h'.tree.wf hc (Or.inr ⟨hnm, Or.inl hpar, hcN⟩) hpar (ExK.none s)⟩
+  have num : ∀ n, ((slot s.tree curObj).opcode ≠ opScope ∧ (slot s.tree curObj).opcode ≠ opMethod) →
       NPs (setNumValue d curObj n >>= fun res => (pure (if res = PRes.shortCircuit then PRes.ok else res) : P PRes)) s
-        (fun res s' => PostF d (TCur s curObj) 14 s s' (res ≠ .failed) (DirOK d none s')) := by
+        (fun res s' => PostF d (TCur s curObj) 14 s s' (res ≠ .failed) (Both jf d none s')) := by
     intro n hnm
     obtain ⟨res, s', e, h', hp, _, _⟩ := setNumValue_tot h hc n
     exact NPs.step e (NPs.pure (pay hnm h' hp))
   split
-  · rename_i ho; exact num 1 (by rw [ho]; decide)
+  · rename_i ho; exact num 1 (by rw [ho]; exact ⟨by decide, by decide⟩)
   · split
-    · rename_i ho; exact num 2 (by rw [ho]; decide)
+    · rename_i ho; exact num 2 (by rw [ho]; exact ⟨by decide, by decide⟩)
     · split
-      · rename_i ho; exact num 4 (by rw [ho]; decide)
+      · rename_i ho; exact num 4 (by rw [ho]; exact ⟨by decide, by decide⟩)
       · split
-        · rename_i ho; exact num 8 (by rw [ho]; decide)
+        · rename_i ho; exact num 8 (by rw [ho]; exact ⟨by decide, by decide⟩)
         · split
           · rename_i ho
             obtain ⟨res, s', e, h', hp, _, _⟩ := setStringValue_tot h hc
-            exact NPs.step e (NPs.pure (pay (by rw [ho]; decide) h' hp))
+            exact NPs.step e (NPs.pure (pay (by rw [ho]; exact ⟨by decide, by decide⟩) h' hp))
           · have hinfo := h.tree.info curObj hc
             obtain ⟨fl, hfl⟩ := opFlags_of_info hinfo
             rw [hfl]
             refine NPs.step (optP_ex fl s) ?_
             have := ih.args (slot s.tree curObj).infoIndex curObj 0 hS hc hinfo hrow (Nat.zero_le _)
-              (hb.mono (by omega)) hatt (fun h0 => by omega) (fun h0 => by omega) hdx hcons hpar
+              (hb.mono (by omega)) hatt (fun h0 => by omega) (fun h0 => by omega) hdx hcons hconsM hpar hcN
             refine NPs.bind this ?_
             intro res s' ⟨h', g', hsz', hok'⟩
             refine NPs.pure ⟨h', g', hsz', fun hq => hok' ?_⟩
@@ -1161,9 +1834,11 @@ theorem objArgs_stepF {d : Bytes} {f : Nat} (ih : FNP d f) {s : PState} (curObj 
 /-! ## the next object -/
 
 /-- a fresh object hung under the innermost scope block -/
-theorem hang_stepF {d : Bytes} {s2 s5 : PState} {n : Nat} (hS2 : KP d s2) (hdir : DirOK d none s2) (hne : s2.scopeStack.size ≠ 0)
+theorem hang_stepF {d : Bytes} {s2 s5 : PState} {n : Nat} (hS2 : KP d s2) (hdir : Both jf d none s2) (hne : s2.scopeStack.size ≠ 0)
     (h5 : FP d s5) (f5 : Fresh1 n s2 s5) :
-    ∃ s6, tree (·.append (topOf s2) n) s5 = .ok ((), s6) ∧ KP d s6 ∧ DirOK d none s6 ∧
+    ∃ s6, tree (·.append (topOf s2) n) s5 = .ok ((), s6) ∧ KP d s6 ∧ (DirOK d none s6 ∧ (jf → MthOK (some n) s6) ∧
+        (jf → ∀ x, live s6.tree x = true → x ≠ n → (slot s6.tree x).opcode = opIntNamePathOrMethodCall →
+          C13.P s6.tree x ≠ INV ∧ ∃ off len, (slot s6.tree x).value = .bytes off len)) ∧
       SGrow (fun x => x = topOf s2 ∨ x = n) 1 s2 s6 ∧ s6.scopeStack = s2.scopeStack ∧ live s6.tree n = true ∧
       C13.P s6.tree n = topOf s2 ∧ Fi s6.tree n = INV ∧ La s6.tree n = INV ∧ Pay (slot s6.tree n) = Pay (slot s5.tree n) ∧
       (slot s6.tree (topOf s2)).opcode = opIntScopeBlock ∧ topOf s2 ≠ INV := by
@@ -1182,19 +1857,37 @@ theorem hang_stepF {d : Bytes} {s2 s5 : PState} {n : Nat} (hS2 : KP d s2) (hdir 
   have hS6 : KP d s6 := hS2.step h6 g26 (fun x hx => Or.inl (by rw [← hsc6]; exact hx))
   have htopn : topOf s2 ≠ n := fun e => by rw [e, hn2] at htopl; cases htopl
   have htop5 : (slot s5.tree (topOf s2)).opcode = opIntScopeBlock := by rw [f5.old _ htopn]; exact hS2.ns _ htopm
-  have hdir5 : DirOK d none s5 := hdir.fresh1 f5 w2 h5.tree.wf (fun _ hq => by cases hq)
-  have hdir6 : DirOK d none s6 := hdir5.append h5.tree.wf h6.tree.wf hs6 f5.pn htop5l
-    (Or.inr ⟨by rw [htop5]; decide, Or.inl (by rw [htop5]; decide)⟩) hl6 sp6 hP6 hNx6 hFi6
+  have hdir5 : DirOK d none s5 := hdir.dir.grow (T := fun _ => False) (SGrow.ofFresh1 f5) w2 h5.tree.wf
+    (fun _ hq _ => False.elim hq) (ExK.none s2) (fun x h1 h2 _ => by
+      by_cases hx : x = n
+      · rw [hx]; exact f5.fin
+      · rw [f5.livex x hx, h1] at h2; cases h2)
+  have hobjT : (some (topOf s2) = (none : Option Nat) ∧ ((slot s5.tree (topOf s2)).opcode = opScope ∨
+        (slot s5.tree (topOf s2)).opcode = opMethod)) ∨
+      (((slot s5.tree (topOf s2)).opcode ≠ opScope ∧ (slot s5.tree (topOf s2)).opcode ≠ opMethod) ∧
+        (ParSB s5 (topOf s2) ∨ (slot s5.tree (topOf s2)).opcode = opIntScopeBlock)) :=
+    Or.inr ⟨⟨by rw [htop5]; decide, by rw [htop5]; decide⟩, Or.inr htop5⟩
+  have hdir6 : DirOK d none s6 := hdir5.append h5.tree.wf h6.tree.wf hs6 f5.pn htop5l hobjT hl6 sp6 hP6 hNx6 hFi6
+  have hmth6 : jf → MthOK (some n) s6 := fun hb => ((hdir.mth hb).freshEx f5 w2).append h5.tree.wf f5.pn htop5l
+    (Or.inr ⟨⟨by rw [htop5]; decide, by rw [htop5]; decide⟩, Or.inr htop5⟩) hl6 sp6 hP6 hNx6 hFi6
   have hobj6 : live s6.tree n = true := by rw [hl6]; exact hobj5
   have hfi6 : Fi s6.tree n = INV := by
     rw [hFi6, if_neg (fun hq => htopn hq.1.symm)]; exact f5.fin
-  refine ⟨s6, e6, hS6, hdir6, g26, hsc6, hobj6, by rw [hP6, if_pos rfl], hfi6, (h6.tree.wf.lP hobj6).ends.1 hfi6, sp6.pay n,
+  have hcs6 : jf → ∀ x, live s6.tree x = true → x ≠ n → (slot s6.tree x).opcode = opIntNamePathOrMethodCall →
+      C13.P s6.tree x ≠ INV ∧ ∃ off len, (slot s6.tree x).value = .bytes off len := by
+    intro hb x hx hxn hop
+    have hx5 : live s5.tree x = true := by rw [← hl6]; exact hx
+    have hx2 : live s2.tree x = true := by rw [← f5.livex x hxn]; exact hx5
+    obtain ⟨hp, off, len, hv⟩ := hdir.cs hb x hx2 (by rw [← f5.old x hxn, ← pay_opcode (sp6.pay x)]; exact hop)
+    refine ⟨by rw [hP6, if_neg hxn, g25.oldP x hx2]; exact hp, off, len, ?_⟩
+    rw [pay_value (sp6.pay x), f5.old x hxn]; exact hv
+  refine ⟨s6, e6, hS6, ⟨hdir6, hmth6, hcs6⟩, g26, hsc6, hobj6, by rw [hP6, if_pos rfl], hfi6, (h6.tree.wf.lP hobj6).ends.1 hfi6, sp6.pay n,
     by rw [pay_opcode (sp6.pay _)]; exact htop5, live_ne_INV w2.size_le htopl⟩
 
 /-- `parseNamePathOrMethodCall()` in the first pass: a `NamePathOrMethodCall` object under the innermost scope block -/
 theorem namePath_stepF {d : Bytes} (hd : d.size + 268435456 ≤ 4294967296) (f : Nat) {s : PState}
-    (hS : KP d s) (hdir : DirOK d none s) (hne : s.scopeStack.size ≠ 0) (hb : Bud d 0 s) :
-    NPs (parseNamePathOrMethodCall d (f + 1)) s (fun res s' => PostF d (TTop s) 0 s s' (res ≠ .failed) (DirOK d none s')) := by
+    (hS : KP d s) (hdir : Both jf d none s) (hne : s.scopeStack.size ≠ 0) (hb : Bud d 0 s) :
+    NPs (parseNamePathOrMethodCall d (f + 1)) s (fun res s' => PostF d (TTop s) 0 s s' (res ≠ .failed) (Both jf d none s')) := by
   have hd' : d.size + 1024 ≤ 4294967296 := by omega
   have h := hS.fp
   have w := h.tree.wf
@@ -1244,10 +1937,23 @@ theorem namePath_stepF {d : Bytes} (hd : d.size + 268435456 ≤ 4294967296) (f :
     rw [htop5] at esc5
     refine NPs.step esc5 ?_
     refine NPs.step (derefP_some_ex _) ?_
-    obtain ⟨s6, e6, hS6, hdir6, g26, hsc6, _⟩ := hang_stepF hS2 (hdir.ofTree ht2 hsame2.2.1) hne2 h5 f5
+    obtain ⟨s6, e6, hS6, ⟨hdir6, hmth6, hcs6⟩, g26, hsc6, _, hP6n, _, _, hpay6, _, htopINV⟩ := hang_stepF hS2 (hdir.ofTree ht2 hsame2.2.1) hne2 h5 f5
     refine NPs.step e6 ?_
     have hn1 : live s1.tree n = false := by rw [← ht2]; exact f5.nlive
-    refine NPs.pure ⟨hS6, ?_, by rw [hsc6, hsc2]; exact Nat.le_refl _, fun _ => hdir6⟩
+    have hop6 : (slot s6.tree n).opcode ≠ opMethod := by
+      rw [pay_opcode hpay6, hsl5, hsl4, hop3]; decide
+    have hcsA : jf → CSA s6 := by
+      intro hb x hx hop
+      by_cases hxn : x = n
+      · rw [hxn]
+        refine ⟨by rw [hP6n]; exact htopINV, ?_⟩
+        rw [pay_value hpay6, hsl5]
+        unfold sliceVal
+        cases sr.1.data with
+        | none => exact ⟨_, _, rfl⟩
+        | some off => exact ⟨_, _, rfl⟩
+      · exact hcs6 hb x hx hxn hop
+    refine NPs.pure ⟨hS6, ?_, by rw [hsc6, hsc2]; exact Nat.le_refl _, fun _ => ⟨hdir6, fun hb => (hmth6 hb).ofSome hop6, hcsA⟩⟩
     refine (SGrow.absorb hs2 hlt g26 (by omega)).mono w ?_
     intro x hx hT
     rcases hT with hT | hT
@@ -1255,9 +1961,9 @@ theorem namePath_stepF {d : Bytes} (hd : d.size + 268435456 ≤ 4294967296) (f :
     · rw [hT, hn1] at hx; cases hx
 
 /-- `parseNextObject()` in the first pass -/
-theorem next_stepF {d : Bytes} (hd : d.size + 268435456 ≤ 4294967296) {f : Nat} (ih : FNP d f) {s : PState}
-    (hS : KP d s) (hdir : DirOK d none s) (hne : s.scopeStack.size ≠ 0) (hb : Bud d 0 s) :
-    NPs (parseNextObject d (f + 1)) s (fun res s' => PostF d (TTop s) 0 s s' (res ≠ .failed) (DirOK d none s')) := by
+theorem next_stepF {d : Bytes} (hd : d.size + 268435456 ≤ 4294967296) {f : Nat} (ih : FNP jf d f) {s : PState}
+    (hS : KP d s) (hdir : Both jf d none s) (hne : s.scopeStack.size ≠ 0) (hb : Bud d 0 s) :
+    NPs (parseNextObject d (f + 1)) s (fun res s' => PostF d (TTop s) 0 s s' (res ≠ .failed) (Both jf d none s')) := by
   have hd' : d.size + 1024 ≤ 4294967296 := by omega
   have h := hS.fp
   have w := h.tree.wf
@@ -1282,7 +1988,7 @@ theorem next_stepF {d : Bytes} (hd : d.size + 268435456 ≤ 4294967296) {f : Nat
     | succ f' => exact namePath_stepF hd f' hS hdir hne hb
   · have g12 : SGrow (TTop s1) 0 s1 s2 := SGrow.ofLex hs2 (by omega)
     have hS2 : KP d s2 := hS.step h2 g12 (fun x hx => Or.inl (by rw [← hsc2]; exact hx))
-    have hdir2 : DirOK d none s2 := hdir.ofTree ht2 hsame2.2.1
+    have hdir2 : Both jf d none s2 := hdir.ofTree ht2 hsame2.2.1
     by_cases hnoop : opr.1 = opNoop
     · rw [if_pos hnoop]
       exact NPs.pure ⟨hS2, g12, by rw [hsc2]; exact Nat.le_refl _, fun _ => hdir2⟩
@@ -1310,24 +2016,37 @@ theorem next_stepF {d : Bytes} (hd : d.size + 268435456 ≤ 4294967296) {f : Nat
       rw [htop4] at esc
       refine NPs.step esc ?_
       refine NPs.step (derefP_some_ex _) ?_
-      obtain ⟨s6, e6, hS6, hdir6, g26, hsc6, hobj6, hP6n, hfi6, hla6, hpay6, htopop6, htopINV⟩ := hang_stepF hS2 hdir2 hne2 h4 f4
+      obtain ⟨s6, e6, hS6, ⟨hdir6, hmth6, hcs6⟩, g26, hsc6, hobj6, hP6n, hfi6, hla6, hpay6, htopop6, htopINV⟩ := hang_stepF hS2 hdir2 hne2 h4 f4
       refine NPs.step e6 ?_
       have h6 := hS6.fp
       have hop6 : (slot s6.tree n).opcode = opr.1 := by rw [pay_opcode hpay6]; exact hop4
       have hinfo6 : (slot s6.tree n).infoIndex = pOpcodeTableIndex opr.1 true := by rw [pay_info hpay6]; exact hinfo4
       have hn1 : live s1.tree n = false := by rw [← ht2]; exact f4.nlive
+      have hnC6 : (slot s6.tree n).opcode ≠ opIntNamePathOrMethodCall := by
+        rw [hop6]; intro e; rw [e] at hbad; exact hbad target_ops.2.2.2.2
+      have hcsA : jf → CSA s6 := by
+        intro hb x hx hop
+        by_cases hxn : x = n
+        · rw [hxn] at hop; exact absurd hop hnC6
+        · exact hcs6 hb x hx hxn hop
       have hb6 : Bud d 14 s6 := by
         have := budS hb2 g26 h6.inv.1 (by omega); exact this.mono (by omega)
-      have hdx : DIRx d s6 n 0 := by
+      have hdx : DIRx jf d s6 n 0 := by
         unfold DIRx
         split
         · rename_i hq
-          refine ⟨by rw [pay_name hpay6]; exact hname4, by rw [hP6n]; exact htopINV, ?_, fun _ => ⟨hdir6.weaken _, hfi6, hla6⟩,
-            fun e => by omega, fun e => by omega⟩
+          refine ⟨by rw [pay_name hpay6]; exact hname4, by rw [hP6n]; exact htopINV, ?_,
+            fun _ => ⟨⟨hdir6.weaken _, hmth6, hcsA⟩, hfi6, hla6⟩, fun e => by omega, fun e => by omega⟩
           rw [hinfo6, ← hop6, hq]; rfl
-        · exact hdir6
+        · split
+          · rename_i _ hqm
+            refine ⟨by rw [hP6n]; exact htopINV, ?_, fun _ => ⟨⟨hdir6.weaken _, hmth6, hcsA⟩, hfi6, hla6⟩, fun e => by omega,
+              fun e => by omega, fun e => by omega⟩
+            rw [hinfo6, ← hop6, hqm]; rfl
+          · rename_i _ hqm
+            exact ⟨hdir6, fun hb => (hmth6 hb).ofSome hqm, hcsA⟩
       have := ih.objArgs (s := s6) n hS6 hobj6 (by rw [hinfo6]; exact hrow) (Or.inl (by rw [hP6n]; exact htopINV)) hb6
-        hdx (Or.inr (by rw [hP6n]; exact htopop6))
+        hdx (Or.inr (by rw [hP6n]; exact htopop6)) hnC6
       refine this.mono ?_
       intro res s7 ⟨hS7, g7, hsz7, hok7⟩
       have g67 : SGrow (fun x => x = topOf s2 ∨ x = n) 14 s6 s7 := g7.mono h6.tree.wf (fun x _ hT => by
@@ -1342,21 +2061,22 @@ theorem next_stepF {d : Bytes} (hd : d.size + 268435456 ≤ 4294967296) {f : Nat
       · rw [hT, hn1] at hx; cases hx
 
 /-- the first-pass functions never end in `.panic` and keep the directive invariant, for every amount of fuel -/
-theorem fnp {d : Bytes} (hd : d.size + 268435456 ≤ 4294967296) (f : Nat) : FNP d f := by
+theorem fnp {d : Bytes} (hd : d.size + 268435456 ≤ 4294967296) (f : Nat) : FNP jf d f := by
   induction f with
   | zero =>
     refine ⟨?_, ?_, ?_, ?_, ?_⟩
     · intro s _ _ _; unfold parseTarget; exact NPs.fuel
-    · intro s i c a ex _ _ _ _ _ _ _ _ _ _ _; unfold parseArg; exact NPs.fuel
-    · intro s i c j _ _ _ _ _ _ _ _ _ _ _ _; unfold parseArgs; exact NPs.fuel
-    · intro s c _ _ _ _ _ _ _; unfold parseObjectArgs; exact NPs.fuel
+    · intro s i c a ex _ _ _ _ _ _ _ _ _ _ _ _; unfold parseArg; exact NPs.fuel
+    · intro s i c j _ _ _ _ _ _ _ _ _ _ _ _ _ _; unfold parseArgs; exact NPs.fuel
+    · intro s c _ _ _ _ _ _ _ _; unfold parseObjectArgs; exact NPs.fuel
     · intro s _ _ _ _; unfold parseNextObject; exact NPs.fuel
   | succ f ih =>
     exact ⟨fun hS hdir hb => target_stepF hd ih hS hdir hb,
-      fun i c a ex hS hc hinfo hb hnbl hfl hdir hexP hcS hpar hexL => arg_stepF hd ih i c a ex hS hc hinfo hb hnbl hfl hdir hexP hcS hpar hexL,
-      fun i c j hS hc hinfo hrow hj hb hatt hprev hpast hdx hcons hpar =>
-        args_stepF ih i c j hS hc hinfo hrow hj hb hatt hprev hpast hdx hcons hpar,
-      fun c hS hc hrow hatt hb hdx hpar => objArgs_stepF ih c hS hc hrow hatt hb hdx hpar,
+      fun i c a ex hS hc hinfo hb hnbl hfl hdir hexP hcS hpar hexL hcN =>
+        arg_stepF hd ih i c a ex hS hc hinfo hb hnbl hfl hdir hexP hcS hpar hexL hcN,
+      fun i c j hS hc hinfo hrow hj hb hatt hprev hpast hdx hcons hconsM hpar hcN =>
+        args_stepF ih i c j hS hc hinfo hrow hj hb hatt hprev hpast hdx hcons hconsM hpar hcN,
+      fun c hS hc hrow hatt hb hdx hpar hcN => objArgs_stepF ih c hS hc hrow hatt hb hdx hpar hcN,
       fun hS hdir hne hb => next_stepF hd ih hS hdir hne hb⟩
 
 /-! ## the object list and the whole first pass -/
@@ -1370,6 +2090,17 @@ theorem RootSB.grow {c : Nat} {s s' : PState} (h : RootSB s) (g : SGrow T c s s'
 theorem RootSB.ofTree {s s' : PState} (h : RootSB s) (ht : s'.tree = s.tree) : RootSB s' := by
   unfold RootSB; rw [ht]; exact h
 
+/-- the root carries the table row of a scope block -/
+def RootI (s : PState) : Prop := (slot s.tree 0).infoIndex = pOpcodeTableIndex opIntScopeBlock true
+
+theorem RootI.grow {c : Nat} {s s' : PState} (h : RootI s) (hr : RootSB s) (g : SGrow T c s s') (hl : live s.tree 0 = true) :
+    RootI s' := by
+  unfold RootI
+  rw [g.kfr.infoKK 0 hl (by rw [hr.2]; exact isK_block)]; exact h
+
+theorem RootI.ofTree {s s' : PState} (h : RootI s) (ht : s'.tree = s.tree) : RootI s' := by
+  unfold RootI; rw [ht]; exact h
+
 theorem KP.ofTree {d : Bytes} {s s' : PState} (h : KP d s) (hf : FP d s') (ht : s'.tree = s.tree) (hab : s'.allBlocks = s.allBlocks)
     (hst : ∀ x ∈ s'.scopeStack.toList, x ∈ s.scopeStack.toList) : KP d s' := by
   refine ⟨hf, by rw [hab]; exact h.sk, ?_, ?_⟩
@@ -1377,16 +2108,17 @@ theorem KP.ofTree {d : Bytes} {s s' : PState} (h : KP d s) (hf : FP d s') (ht : 
   · intro x hx; rw [ht] at hx ⊢; exact h.fn x hx
 
 /-- the invariant of the loops of `parseObjectList` -/
-structure LoopInv (d : Bytes) (s : PState) : Prop where
+structure LoopInv (jf : Prop) (d : Bytes) (K : Nat) (s : PState) : Prop where
   kp : KP d s
-  dir : DirOK d none s
+  dir : Both jf d none s
   root : RootSB s
-  bud : Bud d 0 s
+  rooti : jf → RootI s
+  bud : Bud d K s
 
-theorem objectListInner_F {d : Bytes} (hd : d.size + 268435456 ≤ 4294967296) (fuel : Nat) :
-    ∀ (n : Nat) {s : PState}, LoopInv d s → s.scopeStack.size ≠ 0 →
-      NPs (objectListInner d fuel n) s (fun b s' => KP d s' ∧ RootSB s' ∧ Bud d 0 s' ∧
-        s.scopeStack.size ≤ s'.scopeStack.size ∧ (b = true → DirOK d none s')) := by
+theorem objectListInner_F {d : Bytes} {K : Nat} (hd : d.size + 268435456 ≤ 4294967296) (fuel : Nat) :
+    ∀ (n : Nat) {s : PState}, LoopInv jf d K s → s.scopeStack.size ≠ 0 →
+      NPs (objectListInner d fuel n) s (fun b s' => KP d s' ∧ (RootSB s' ∧ (jf → RootI s')) ∧ Bud d K s' ∧
+        s.scopeStack.size ≤ s'.scopeStack.size ∧ (b = true → Both jf d none s')) := by
   intro n
   induction n with
   | zero => intro s _ _; unfold objectListInner; exact NPs.fuel
@@ -1400,23 +2132,24 @@ theorem objectListInner_F {d : Bytes} (hd : d.size + 268435456 ≤ 4294967296) (
     subst hss
     by_cases he : b = true
     · rw [if_pos he]
-      exact NPs.pure ⟨hI.kp, hI.root, hI.bud, Nat.le_refl _, fun _ => hI.dir⟩
+      exact NPs.pure ⟨hI.kp, ⟨hI.root, hI.rooti⟩, hI.bud, Nat.le_refl _, fun _ => hI.dir⟩
     · rw [if_neg he]
-      refine NPs.bind ((fnp hd fuel).next hI.kp hI.dir hne hI.bud) ?_
+      refine NPs.bind ((fnp hd fuel).next hI.kp hI.dir hne (hI.bud.mono (Nat.zero_le _))) ?_
       intro res s2 ⟨hS2, g2, hsz2, hok2⟩
       have hr2 : RootSB s2 := hI.root.grow g2 h.tree.root
-      have hb2 : Bud d 0 s2 := budS hI.bud g2 hS2.fp.inv.1 (Nat.le_refl _)
+      have hri2 : jf → RootI s2 := fun hb => (hI.rooti hb).grow hI.root g2 h.tree.root
+      have hb2 : Bud d K s2 := budS hI.bud g2 hS2.fp.inv.1 (Nat.zero_le _)
       by_cases hok : res = .ok
       · rw [if_neg (by rw [hok]; decide)]
-        refine (ih ⟨hS2, hok2 (by rw [hok]; decide), hr2, hb2⟩ (by omega)).mono ?_
+        refine (ih ⟨hS2, hok2 (by rw [hok]; decide), hr2, hri2, hb2⟩ (by omega)).mono ?_
         intro b3 s3 ⟨q1, q2, q3, q4, q5⟩
         exact ⟨q1, q2, q3, by omega, q5⟩
       · rw [if_pos hok]
-        exact NPs.pure ⟨hS2, hr2, hb2, hsz2, fun hq => by cases hq⟩
+        exact NPs.pure ⟨hS2, ⟨hr2, hri2⟩, hb2, hsz2, fun hq => by cases hq⟩
 
-theorem parseObjectList_F {d : Bytes} (hd : d.size + 268435456 ≤ 4294967296) (fuel : Nat) :
-    ∀ (n : Nat) {s : PState}, LoopInv d s →
-      NPs (parseObjectList d fuel n) s (fun res s' => KP d s' ∧ RootSB s' ∧ (res ≠ .failed → DirOK d none s')) := by
+theorem parseObjectList_F {d : Bytes} {K : Nat} (hd : d.size + 268435456 ≤ 4294967296) (fuel : Nat) :
+    ∀ (n : Nat) {s : PState}, LoopInv jf d K s →
+      NPs (parseObjectList d fuel n) s (fun res s' => KP d s' ∧ (RootSB s' ∧ (jf → RootI s')) ∧ Bud d K s' ∧ (res ≠ .failed → Both jf d none s' ∧ s'.scopeStack.size = 0)) := by
   intro n
   induction n with
   | zero => intro s _; unfold parseObjectList; exact NPs.fuel
@@ -1427,10 +2160,10 @@ theorem parseObjectList_F {d : Bytes} (hd : d.size + 268435456 ≤ 4294967296) (
     refine NPs.step e0 ?_
     by_cases hz : s.scopeStack.size = 0
     · rw [if_pos hz]
-      exact NPs.pure ⟨hI.kp, hI.root, fun _ => hI.dir⟩
+      exact NPs.pure ⟨hI.kp, ⟨hI.root, hI.rooti⟩, hI.bud, fun _ => ⟨hI.dir, hz⟩⟩
     · rw [if_neg hz]
       refine NPs.bind (objectListInner_F hd fuel fuel hI hz) ?_
-      intro b s1 ⟨hS1, hr1, hb1, hsz1, hd1⟩
+      intro b s1 ⟨hS1, ⟨hr1, hri1⟩, hb1, hsz1, hd1⟩
       by_cases hbt : b = true
       · rw [hbt]
         simp only [Bool.not_true, Bool.false_eq_true, ↓reduceIte]
@@ -1438,14 +2171,14 @@ theorem parseObjectList_F {d : Bytes} (hd : d.size + 268435456 ≤ 4294967296) (
         have e2 : stackSizes s1 = .ok ((s1.pkgEndStack.size, s1.scopeStack.size), s1) := rfl
         refine NPs.step e2 ?_
         have hne1 : s1.scopeStack.size ≠ 0 := by omega
-        have cont : ∀ s2 : PState, LoopInv d s2 →
+        have cont : ∀ s2 : PState, LoopInv jf d K s2 →
             NPs (popPkgEnd d >>= fun _ => parseObjectList d fuel n) s2
-              (fun res s' => KP d s' ∧ RootSB s' ∧ (res ≠ .failed → DirOK d none s')) := by
+              (fun res s' => KP d s' ∧ (RootSB s' ∧ (jf → RootI s')) ∧ Bud d K s' ∧ (res ≠ .failed → Both jf d none s' ∧ s'.scopeStack.size = 0)) := by
           intro s2 hI2
           obtain ⟨_, s3, e3, h3, ht3, hsc3, ho3, hsame3⟩ := popPkgEnd_stepS hI2.kp.fp
           refine NPs.step e3 ?_
           refine ih ⟨hI2.kp.ofTree h3 ht3 hsame3.1 (fun x hx => by rw [← hsc3]; exact hx), hI2.dir.ofTree ht3 hsame3.2.1,
-            hI2.root.ofTree ht3, ?_⟩
+            hI2.root.ofTree ht3, fun hb => (hI2.rooti hb).ofTree ht3, ?_⟩
           have := hI2.bud
           unfold Bud at this ⊢; rw [ht3, ho3]; exact this
         dsimp only
@@ -1453,7 +2186,8 @@ theorem parseObjectList_F {d : Bytes} (hd : d.size + 268435456 ≤ 4294967296) (
         · obtain ⟨s2, e2', h2, hs2⟩ := scopeExit_step hS1.fp hne1
           refine NPs.step e2' ?_
           have ht2 : s2.tree = s1.tree := by rw [hs2]
-          refine cont s2 ⟨hS1.ofTree h2 ht2 (by rw [hs2]) ?_, hdir1.ofTree ht2 (by rw [hs2]), hr1.ofTree ht2, ?_⟩
+          refine cont s2 ⟨hS1.ofTree h2 ht2 (by rw [hs2]) ?_, hdir1.ofTree ht2 (by rw [hs2]), hr1.ofTree ht2,
+            fun hb => (hri1 hb).ofTree ht2, ?_⟩
           · intro x hx
             rw [hs2] at hx
             simp only [Array.toList_pop] at hx
@@ -1463,19 +2197,21 @@ theorem parseObjectList_F {d : Bytes} (hd : d.size + 268435456 ≤ 4294967296) (
             rw [ht2]
             have hr : s2.r = s1.r := by rw [hs2]
             rw [hr]; exact this
-        · exact cont s1 ⟨hS1, hdir1, hr1, hb1⟩
+        · exact cont s1 ⟨hS1, hdir1, hr1, hri1, hb1⟩
       · have hbf : b = false := by cases b <;> simp_all
         rw [hbf]
         simp only [Bool.not_false, ↓reduceIte]
-        exact NPs.pure ⟨hS1, hr1, fun hq => absurd rfl hq⟩
+        exact NPs.pure ⟨hS1, ⟨hr1, hri1⟩, hb1, fun hq => absurd rfl hq⟩
 
 /-- **the first pass establishes `MergeInv`**: from any well-formed pool whose root is a parentless scope block, whose freed
 slots carry no name and in which no `Scope` object left behind by an earlier table carries this table's handle, the first
 pass never panics, and unless it fails every `Scope` directive of the table has the shape `mergeScopeDirectives` relies on -/
 theorem firstPass_mi {d : Bytes} (hd : d.size + 268435456 ≤ 4294967296) {s : PState} (ht : TreeG s.tree)
     (hsz : s.tree.pool.size + 16 * d.size ≤ INV) (fuel handle : Nat) (hroot : RootSB s) (hfn : FN s)
-    (hh : ∀ x, live s.tree x = true → (slot s.tree x).opcode = opScope → (slot s.tree x).tableHandle ≠ handle) :
-    NPs (firstPass d fuel handle) s (fun res s' => FP d s' ∧ (res ≠ .failed → MI d s')) := by
+    (hh : ∀ x, live s.tree x = true → (slot s.tree x).opcode = opScope → (slot s.tree x).tableHandle ≠ handle)
+    (hmth : jf → MInv s ∧ CSA s) :
+    NPs (firstPass d fuel handle) s (fun res s' => FP d s' ∧ s'.tree.pool.size ≤ s.tree.pool.size + 16 * d.size ∧
+      (res ≠ .failed → MIJ jf d s' ∧ s'.scopeStack.size = 0)) := by
   unfold firstPass
   let s0 : PState := { s with tableHandle := handle, resolvePasses := 0, mergedScopes := 0, relocatedObjects := 0, allBlocks := false, scopeStack := #[], pkgEndStack := #[] }
   let s1 : PState := { s0 with r := Reader.init d headerLen, streamEnd := d.size }
@@ -1505,8 +2241,8 @@ theorem firstPass_mi {d : Bytes} (hd : d.size + 268435456 ≤ 4294967296) {s : P
     simp at hx
     rw [hx]; exact h2.tree.root
   have hi := h2.inv.1
-  have hI : LoopInv d { s2 with scopeStack := s2.scopeStack.push 0 } := by
-    refine ⟨⟨h3, hab2, ?_, ?_⟩, ?_, ?_, ?_⟩
+  have hI : LoopInv jf d (INV - (s.tree.pool.size + 16 * d.size)) { s2 with scopeStack := s2.scopeStack.push 0 } := by
+    refine ⟨⟨h3, hab2, ?_, ?_⟩, ⟨?_, ?_, ?_⟩, ?_, ?_, ?_⟩
     · intro x hx
       show (slot s2.tree x).opcode = opIntScopeBlock
       have hx' : x ∈ (s2.scopeStack.push 0).toList := hx
@@ -1525,17 +2261,32 @@ theorem firstPass_mi {d : Bytes} (hd : d.size + 268435456 ≤ 4294967296) {s : P
       have hth' : (slot s2.tree x).tableHandle = s2.tableHandle := hth
       rw [ht2] at hl' ho' hth'
       exact hh x hl' ho' (by rw [hth', hth2])
+    · intro hb m hl ho _
+      have hl' : live s2.tree m = true := hl
+      have ho' : (slot s2.tree m).opcode = opMethod := ho
+      show MthC s2.tree m
+      rw [ht2] at hl' ho' ⊢
+      exact (hmth hb).1.mths m hl' ho'
+    · intro hb
+      exact (hmth hb).2.ofTree (show ({ s2 with scopeStack := s2.scopeStack.push 0 } : PState).tree = s.tree from ht2)
     · show RootSB s2
       exact hroot.ofTree ht2
-    · unfold Bud; show s2.tree.pool.size + 16 * (d.size - s2.r.offset) + 0 ≤ INV
+    · intro hb
+      exact RootI.ofTree (s := s) (hmth hb).1.rootI (show ({ s2 with scopeStack := s2.scopeStack.push 0 } : PState).tree = s.tree from ht2)
+    · unfold Bud; show s2.tree.pool.size + 16 * (d.size - s2.r.offset) + (INV - (s.tree.pool.size + 16 * d.size)) ≤ INV
       rw [ht2]; omega
   refine (parseObjectList_F hd fuel fuel hI).mono ?_
-  intro res s4 ⟨hS4, hr4, hd4⟩
-  refine ⟨hS4.fp, fun hq => ⟨⟨hS4.fp.tree.wf, hS4.fp.tree.root, hS4.fp.tree.info⟩, hr4.1, hr4.2, ?_⟩⟩
-  intro x ⟨hl, ho, hth, hfi⟩
-  rcases hd4 hq x hl ho hth (by intro e; cases e) with h0 | h0
-  · exact absurd h0 hfi
-  · exact h0.shape
+  intro res s4 ⟨hS4, ⟨hr4, hri4⟩, hb4, hd4⟩
+  refine ⟨hS4.fp, ?_, fun hq => ⟨⟨⟨⟨hS4.fp.tree.wf, hS4.fp.tree.root, hS4.fp.tree.info⟩, hr4.1, hr4.2, ?_⟩, ?_⟩, (hd4 hq).2⟩⟩
+  · unfold Bud at hb4; omega
+  · intro x ⟨hl, ho, hth, hfi⟩
+    rcases (hd4 hq).1.dir x hl ho hth (by intro e; cases e) with h0 | h0
+    · exact absurd h0 hfi
+    · exact h0.shape
+  · intro hb
+    refine ⟨fun m hl ho => (hd4 hq).1.mth hb m hl ho (by intro e; cases e), ?_, hri4 hb⟩
+    intro x hl ho
+    exact ((hd4 hq).1.cs hb x hl ho).2
 
 /-! ## the prefix of `ParseAML` -/
 
@@ -1575,17 +2326,20 @@ theorem parseAML_prefix (d : Bytes) (fuel handle : Nat) :
 `connectNamedObjArgs` and the resolve loop; `b = false` = the prefix made `ParseAML` fail -/
 theorem parsePrefix_np {d : Bytes} (hd : d.size + 268435456 ≤ 4294967296) {s : PState} (ht : TreeG s.tree)
     (hsz : s.tree.pool.size + 16 * d.size ≤ INV) (fuel handle : Nat) (hroot : RootSB s) (hfn : FN s)
-    (hh : ∀ x, live s.tree x = true → (slot s.tree x).opcode = opScope → (slot s.tree x).tableHandle ≠ handle) :
-    NPs (parsePrefix d fuel handle) s (fun b s' => TP s' ∧ (b = true → MI d s')) := by
+    (hh : ∀ x, live s.tree x = true → (slot s.tree x).opcode = opScope → (slot s.tree x).tableHandle ≠ handle)
+    (hmth : jf → MInv s ∧ CSA s) :
+    NPs (parsePrefix d fuel handle) s (fun b s' => TP s' ∧ (b = true → MIJ jf d s' ∧ Inv d s'.r ∧ s'.scopeStack.size = 0 ∧
+      s'.tree.pool.size ≤ s.tree.pool.size + 16 * d.size)) := by
   unfold parsePrefix
-  refine NPs.bind (firstPass_mi hd ht hsz fuel handle hroot hfn hh) ?_
-  intro r s1 ⟨h1, hmi⟩
+  refine NPs.bind (firstPass_mi hd ht hsz fuel handle hroot hfn hh hmth) ?_
+  intro r s1 ⟨h1, hp1, hmi⟩
   split
   · exact NPs.pure ⟨⟨h1.tree.wf, h1.tree.root, h1.tree.info⟩, fun hq => by cases hq⟩
   · rename_i hr
-    refine (treePasses_np d fuel (hmi hr)).mono ?_
-    intro b s2 ⟨m2, _⟩
-    exact ⟨m2.tp, fun _ => m2⟩
+    refine (treePasses_np d fuel (hmi hr).1).mono ?_
+    intro b s2 ⟨m2, sh2⟩
+    exact ⟨m2.tp, fun _ => ⟨m2, by rw [sh2.rs.1]; exact h1.inv, by rw [sh2.rs.2.1]; exact (hmi hr).2,
+      by rw [sh2.size]; exact hp1⟩⟩
 
 /-- the executable check of the pool hypotheses is sound -/
 theorem poolHyp_of_b {s : PState} {handle : Nat} (h : poolHypB s.tree handle = true) :
